@@ -1,16 +1,80 @@
 """C20 - Byte-level codecs and stager URI classification are exact (decidable part).
 
-All rules work on *path terms*: `_paths(fn)` enumerates the paths of a (small) function symbolically - every local is
+All rules work on *path terms*: `_paths(fn)` walks the paths of a (small) function symbolically - every local is
 substituted by its defining expression over the parameters (flow-sensitive, so rebinding, temporaries, renamed locals,
 extracted-and-inlined helpers, flags, early returns vs if/else and De-Morgan variants of tests are invisible), tests are
-split at `and`/`or`/`not`, loops are executed once over havoc'd loop-carried symbols (list-building loops are summarised
-as a fold).  A rule then locates its subject *by role* in the terms ("the length argument of the to_bytes that is
-returned", "the classifier call a returned URI passed") and decides the arithmetic side conditions (lengths, tiling
-factors, nibble expressions, admitted argument ranges) by exhaustive evaluation over a small finite domain with a
-checker-internal evaluator of pure expressions (`_ev`; nothing of /repo is imported or executed).
+split at `and`/`or`/`not`, a loop body is walked once over havoc'd loop-carried symbols (list-building loops are
+summarised as a fold).  Nothing is ever run on data: branch outcomes stay symbolic, only constant sub-expressions are
+folded.  A rule then locates its subject *by role* in the terms ("the length argument of the to_bytes that is returned",
+"the classifier call a returned URI passed") and decides the side conditions algebraically: polynomial normal form
+(`_P`, on top of `csverif.absint.sympoly`) with `//`, `%`, ceiling division and bit operations as opaque atoms, a small
+set of linear facts read off the path conditions (`_Facts`), intervals / interval sets for integer quantities, an
+abstract key domain {empty, all-zero, has a non-zero byte}, structural matching of the two nibble terms, and inspection
+of the *parsed* regular expression.  Every arithmetic fact that is not a polynomial identity is a lemma listed below.
 
-Verdicts: subject located and condition holds -> discharged; located and the condition fails -> violated; the terms
-contain something the rule cannot model -> undecided.
+Verdicts: subject located and condition holds -> discharged; located and the condition fails (the term has one of the
+finitely many recognised forms and the algebra shows it differs) -> violated; the terms are outside the recognised
+forms -> undecided.
+
+Technique
+---------
+Device numbers refer to RULES_GUIDE.md, "What counts as static here" (1 syntax tree/resolved callees, 2 CFG paths and
+pruning, 3 def-use terms compared structurally / in normal form / by lemma, 4 abstract domains with lemmas, 5 case
+analysis over the code's own finite vocabulary, 6 constant folding, regex syntax tree, table comparison).
+
+R1 xor: 2+3 (path terms, roles of the XOR operands by structure), 4 (abstract key domain {E empty, Z all-zero,
+   N some byte non-zero} with interval transfer for `len(key)`, `sum(key)`, `any(key)`, `sum(key) % m`, tests of a
+   part of the key; linear facts from the path conditions; length algebra of slices and repetitions), 6 (byte order /
+   signed constants).  Lemmas: L1-L9, L24.
+R2 pack/unpack: 1+6 (partial chains compared completely with the table the names promise), 3 (returned call located
+   by role, pass-through of parameters), 5 (case `size is None` / `size is not None` read off the path conditions),
+   4 (minimal byte count in normal form).  Lemma: L10.
+R3 checksum8 / classifiers: 2+3 (path terms; true-alternatives of the classifier value by short-circuit splitting),
+   4 (interval sets for `len(text)` and for the checksum value in [0, 255]), 3 (code-point sum recognised
+   structurally), 6 (regular expression: syntax tree from CPython's `re._parser`, anchors / repeat counts / character
+   classes compared with the table [0-9A-Za-z]; no string is ever matched).  Lemmas: L11-L15.
+R4 random_stager_uri: 2+3 (the returned value is the very term that passed the classifier call on its true edge), 5
+   (specialised per `x64` = True / False, the flag's own two values), 4 (interval set of the admitted `length`), 3
+   (repeat count in polynomial normal form), 6 (alphabet folded from the `string` module constants and compared with the
+   table).  Lemma: L16.
+R5 staged beacon gate: 2+3 only (path conditions carrying a positive classifier call on the request URI; callee
+   resolution 1; None / not None of the request 5).
+R6 NetBIOS: 2+3 (sequence builder located by role: comprehension or one list-filling loop, analysed once), 3+4
+   (structural matching of the nibble terms, polynomial normal form of the symbol / decoded-byte terms, affine index
+   terms of the decoder under the loop's start/step), 6 (default offsets).  Lemmas: L17-L23.
+
+Lemmas (each is an identity / inequality over the integers; the one-line reason is given):
+ L1  len(s * q) == len(s) * q for q >= 0; len(s[:h]) == min(len(s), h) for h >= 0; len(s + t) == len(s) + len(t).
+     (definition of sequence repetition, slicing, concatenation)
+ L2  k * (n // k + 1) >= n + 1 and k * (n // k) <= n for k >= 1.   (n == k * (n // k) + n % k with 0 <= n % k < k)
+ L3  -(-n // k) == ceil(n / k);  n <= k * ceil(n / k) <= n + k - 1 for k >= 1.   (floor(-x) == -ceil(x))
+ L4  divmod(a, b) == (a // b, a % b);  x << c == x * 2**c;  x >> c == x // 2**c.   (language definition)
+ L5  a term `n // len(s)` that was evaluated without ZeroDivisionError has len(s) != 0, hence len(s) >= 1; a length is >= 0.
+ L6  n // k >= 0 and ceil(n / k) >= 0 for n >= 0, k >= 1;  0 <= n % k <= k - 1 for k >= 1.
+ L7  byte values are >= 0, so sum(key) == 0 <=> any(key) is False <=> every byte is 0; the empty sum is 0.
+ L8  for every m >= 2 there are keys with a non-zero byte whose byte sum is a multiple of m (m bytes of value 1) and
+     keys whose sum is not; a test that reads only a part of the key (a slice with constant bounds, one index) has
+     both outcomes among the keys with a non-zero byte (put the non-zero byte outside / inside that part).
+ L9  k * (n // k) < n whenever k does not divide n: a keystream of that length is shorter than the data.
+ L10 (b + 7) // 8 == -(-b // 8) == ceil(b / 8);  b // 8 + 1 == ceil(b / 8) + 1 whenever 8 divides b.
+ L11 x % 256 is in [0, 255];  x & 255 == x % 256 for every int x.   (two's complement of Python ints)
+ L12 `^`/`$`/`\\A`/`\\Z` are string anchors unless re.MULTILINE turns `^`/`$` into line anchors; re.match anchors the
+     start, re.fullmatch both ends, re.search neither.  (`$` also matches before one trailing newline: not judged.)
+ L13 without re.ASCII `\\d`, `\\w` match non-ASCII characters; `\\w` always matches `_`.   (documented in `re`)
+ L14 with re.IGNORECASE and without re.ASCII the letters i, k, s also match U+0130/U+0131, U+212A, U+017F.  (ditto)
+ L15 str.isalnum() and str.isascii() hold together exactly for non-empty strings over [0-9A-Za-z]; isalnum() alone
+     also holds for non-ASCII letters and digits.
+ L16 len(range(a, b)) == b - a for b >= a;  random.choices(pop, k=n) has n elements.
+ L17 iterating bytes / bytearray yields ints c with 0 <= c < 256.
+ L18 (c & m) >> 4 == c >> 4 for 0 <= c < 256 when m has bits 4..7 set (the shift discards bits 0..3, the mask keeps
+     all the others);  c >> 4 == c // 16 is in [0, 15];  c & 15 == c % 16 is in [0, 15].
+ L19 c == 16 * (c >> 4) + (c & 15).   (L2 with k = 16)
+ L20 (h << 4) | l == (h << 4) + l for 0 <= l < 16.   (no common bits)
+ L21 with the encoder symbols x = hi + off, y = lo + off the decoder term 16 * (x - off) + (y - off) is c (L19); any
+     other polynomial in x, y, off differs from it for some byte.   (distinct polynomials of degree <= 1 over Z)
+ L22 len(range(0, L, 2)) == L // 2 for even L;  the j-th element of range(a, b, s) is a + s * j.
+ L23 x & m == x for every int x only if m == -1; x | m == x, x ^ m == x only if m == 0; x % m != x for x >= m.
+ L24 i % n == i for 0 <= i < n.   (L2 with quotient 0)
 """
 
 from __future__ import annotations
@@ -19,7 +83,9 @@ import ast
 import copy
 import itertools
 import re
+from fractions import Fraction
 
+from csverif.absint import Itv, SymPoly, sympoly
 from csverif.astutil import const_eval, dotted, NotConst, param_defaults, params, src
 
 
@@ -30,13 +96,16 @@ def _c(node):
         return None
 
 
-# ===================================================================================================== pure evaluator
+# ===================================================================================================== constant folder
+# Folds *constant* expressions of the analysed code (device 6).  The only names it knows are reference constants of the
+# standard library handed in by the caller (`string.ascii_letters`, `re.ASCII`, ..); parameters, locals and symbols are
+# never given values, so no expression is ever evaluated on data.
 class _NoEval(Exception):
-    """The expression is outside the modelled pure subset (nothing is known)."""
+    """The expression is not a constant expression of the modelled pure subset."""
 
 
 class _Raises(_NoEval):
-    """The expression is modelled and its evaluation raises at this point of the domain."""
+    """The constant expression is modelled and folding it raises."""
 
 
 _BIN = {
@@ -52,31 +121,19 @@ _CMP = {
 _SEQ = (bytes, bytearray, str, list, tuple, range)
 _BIG = 1 << 16
 
-
-def _ceil(x):
-    import math
-
-    return math.ceil(x)
-
-
 _FUNCS = {
-    "len": len, "min": min, "max": max, "abs": abs, "int": int, "bool": bool, "divmod": divmod, "range": range, "sum": sum,
-    "bytes": bytes, "bytearray": bytearray, "list": list, "tuple": tuple, "any": any, "all": all, "ord": ord, "chr": chr,
-    "set": set, "frozenset": frozenset, "sorted": sorted, "reversed": lambda x: list(reversed(x)), "enumerate": lambda x, start=0: list(enumerate(x, start)),
-    "zip": lambda *a: list(zip(*a)), "math.ceil": _ceil, "ceil": _ceil, "memoryview": bytes, "str": str,
+    "len": len, "min": min, "max": max, "abs": abs, "int": int, "bool": bool, "range": range, "sum": sum,
+    "bytes": bytes, "bytearray": bytearray, "list": list, "tuple": tuple, "ord": ord, "chr": chr,
+    "set": set, "frozenset": frozenset, "sorted": sorted, "str": str,
 }
-_METHODS = {"bit_length": (int,), "count": (bytes, bytearray, str, list, tuple), "strip": (bytes, bytearray, str), "lstrip": (bytes, bytearray, str),
-            "rstrip": (bytes, bytearray, str), "startswith": (bytes, bytearray, str), "endswith": (bytes, bytearray, str), "replace": (bytes, bytearray, str),
-            "isalnum": (str,), "isascii": (str, bytes), "upper": (str, bytes), "lower": (str, bytes), "index": (bytes, bytearray, str, list, tuple),
-            "find": (bytes, bytearray, str)}
+_METHODS = {"upper": (str, bytes), "lower": (str, bytes), "strip": (bytes, bytearray, str), "replace": (bytes, bytearray, str)}
 
 
-def _ev(e, env=None):
-    """Value of a pure expression over `env` (name -> Python value).  Raises _NoEval outside the modelled subset and
-    _Raises when the modelled evaluation itself raises."""
-    env = env or {}
+def _fold(e, consts=None):
+    """Value of a constant expression (`consts`: placeholder name -> value of a standard-library reference constant).
+    Raises _NoEval when the expression is not constant / outside the modelled subset, _Raises when folding raises."""
     try:
-        return _ev1(e, env)
+        return _fold1(e, consts or {})
     except _NoEval:
         raise
     except (ZeroDivisionError, IndexError, KeyError, TypeError, ValueError, OverflowError, AttributeError) as x:
@@ -85,7 +142,7 @@ def _ev(e, env=None):
         raise _NoEval("too large")
 
 
-def _ev1(e, env):
+def _fold1(e, env):
     if isinstance(e, ast.Constant):
         return e.value
     if isinstance(e, ast.Name):
@@ -95,10 +152,10 @@ def _ev1(e, env):
     if isinstance(e, (ast.Tuple, ast.List, ast.Set)):
         if any(isinstance(x, ast.Starred) for x in e.elts):
             raise _NoEval("starred")
-        vals = [_ev1(x, env) for x in e.elts]
+        vals = [_fold1(x, env) for x in e.elts]
         return tuple(vals) if isinstance(e, ast.Tuple) else list(vals) if isinstance(e, ast.List) else set(vals)
     if isinstance(e, ast.UnaryOp):
-        v = _ev1(e.operand, env)
+        v = _fold1(e.operand, env)
         if isinstance(e.op, ast.Not):
             return not v
         if isinstance(e.op, ast.USub):
@@ -109,7 +166,7 @@ def _ev1(e, env):
     if isinstance(e, ast.BinOp):
         if type(e.op) not in _BIN:
             raise _NoEval(src(e))
-        a, b = _ev1(e.left, env), _ev1(e.right, env)
+        a, b = _fold1(e.left, env), _fold1(e.right, env)
         if isinstance(e.op, ast.Mult) and ((isinstance(a, _SEQ) and isinstance(b, int) and b * max(len(a), 1) > _BIG) or (isinstance(b, _SEQ) and isinstance(a, int) and a * max(len(b), 1) > _BIG)):
             raise _NoEval("too large")
         if isinstance(e.op, ast.LShift) and isinstance(b, int) and b > 256:
@@ -118,94 +175,53 @@ def _ev1(e, env):
     if isinstance(e, ast.BoolOp):
         v = None
         for x in e.values:
-            v = _ev1(x, env)
+            v = _fold1(x, env)
             if isinstance(e.op, ast.And) and not v:
                 return v
             if isinstance(e.op, ast.Or) and v:
                 return v
         return v
     if isinstance(e, ast.Compare):
-        l = _ev1(e.left, env)
+        l = _fold1(e.left, env)
         for op, r in zip(e.ops, e.comparators):
-            rv = _ev1(r, env)
+            rv = _fold1(r, env)
             if not _CMP[type(op)](l, rv):
                 return False
             l = rv
         return True
     if isinstance(e, ast.IfExp):
-        return _ev1(e.body, env) if _ev1(e.test, env) else _ev1(e.orelse, env)
+        return _fold1(e.body, env) if _fold1(e.test, env) else _fold1(e.orelse, env)
     if isinstance(e, ast.Subscript):
-        base = _ev1(e.value, env)
+        base = _fold1(e.value, env)
         if not isinstance(base, _SEQ + (dict,)):
             raise _NoEval(src(e))
         if isinstance(e.slice, ast.Slice):
-            lo, hi, st = (None if x is None else _ev1(x, env) for x in (e.slice.lower, e.slice.upper, e.slice.step))
+            lo, hi, st = (None if x is None else _fold1(x, env) for x in (e.slice.lower, e.slice.upper, e.slice.step))
             return base[lo:hi:st]
-        return base[_ev1(e.slice, env)]
-    if isinstance(e, (ast.ListComp, ast.GeneratorExp, ast.SetComp)):
-        out = []
-        _comp(e.generators, 0, e.elt, dict(env), out)
-        return set(out) if isinstance(e, ast.SetComp) else out
+        return base[_fold1(e.slice, env)]
     if isinstance(e, ast.Call):
-        if any(isinstance(a, ast.Starred) for a in e.args) or any(k.arg is None for k in e.keywords):
-            raise _NoEval("starred")
+        if any(isinstance(a, ast.Starred) for a in e.args) or e.keywords:
+            raise _NoEval("starred / keywords")
         name = dotted(e.func)
         if name in _FUNCS and name not in env:
-            args = [_ev1(a, env) for a in e.args]
-            kw = {k.arg: _ev1(k.value, env) for k in e.keywords}
-            if name == "range":
-                r = range(*args)
-                if len(r) > _BIG:
-                    raise _NoEval("too large")
-                return r
+            args = [_fold1(a, env) for a in e.args]
+            if name == "range" and len(range(*args)) > _BIG:
+                raise _NoEval("too large")
             if name in ("bytes", "bytearray") and args and isinstance(args[0], int) and args[0] > _BIG:
                 raise _NoEval("too large")
-            if name == "map":
-                raise _NoEval("map")
-            return _FUNCS[name](*args, **kw)
-        if name == "map" and len(e.args) == 2 and dotted(e.args[0]) in ("ord", "int", "abs", "bool"):
-            return [_FUNCS[dotted(e.args[0])](x) for x in _ev1(e.args[1], env)]
+            return _FUNCS[name](*args)
         if isinstance(e.func, ast.Attribute) and e.func.attr in _METHODS:
-            recv = _ev1(e.func.value, env)
+            recv = _fold1(e.func.value, env)
             if isinstance(recv, _METHODS[e.func.attr]) and not isinstance(recv, bool):
-                args = [_ev1(a, env) for a in e.args]
-                return getattr(recv, e.func.attr)(*args)
+                return getattr(recv, e.func.attr)(*[_fold1(a, env) for a in e.args])
         raise _NoEval(src(e))
     raise _NoEval(type(e).__name__)
 
 
-def _comp(gens, i, elt, env, out):
-    if i == len(gens):
-        out.append(_ev1(elt, env))
-        if len(out) > _BIG:
-            raise _NoEval("too large")
-        return
-    g = gens[i]
-    if g.is_async:
-        raise _NoEval("async")
-    for v in _ev1(g.iter, env):
-        _bind_target(g.target, v, env)
-        if all(_ev1(c, env) for c in g.ifs):
-            _comp(gens, i + 1, elt, env, out)
-
-
-def _bind_target(t, v, env):
-    if isinstance(t, ast.Name):
-        env[t.id] = v
-    elif isinstance(t, (ast.Tuple, ast.List)) and not any(isinstance(x, ast.Starred) for x in t.elts):
-        vs = list(v)
-        if len(vs) != len(t.elts):
-            raise ValueError("unpack")
-        for x, y in zip(t.elts, vs):
-            _bind_target(x, y, env)
-    else:
-        raise _NoEval("target")
-
-
-def _truth(e, env):
-    """True / False / None (not evaluable); an evaluation that raises counts as 'raises'."""
+def _truth(e):
+    """Truth value of a *constant* test: True / False, None when the test is not constant, "raises" when folding it raises."""
     try:
-        return bool(_ev(e, env))
+        return bool(_fold(e))
     except _Raises:
         return "raises"
     except _NoEval:
@@ -213,8 +229,8 @@ def _truth(e, env):
 
 
 class _Abstract(ast.NodeTransformer):
-    """Replace every sub-expression whose text is a key of `binds` by the placeholder name bound to it, so that the
-    evaluator can treat e.g. `len(data)`, `n.bit_length()` or a classifier call as one integer/boolean unknown."""
+    """Replace every sub-expression whose text is a key of `binds` by the placeholder name bound to it, so that e.g. a
+    classifier call or `checksum8(uri)` becomes one atom of the algebra."""
 
     def __init__(self, binds):
         self.binds = binds
@@ -243,6 +259,354 @@ def _k(e):
     if isinstance(e, list):
         return tuple(_k(x) for x in e)
     return e
+
+
+# ===================================================================================================== algebra
+# Polynomial normal form with opaque atoms for the operations that are not polynomial, interval sets, and a tiny prover
+# for `P >= 0` from linear facts and the lemmas L2-L6.
+class _NoPoly(Exception):
+    pass
+
+
+_ONE = SymPoly.const(1)
+_DIVS = {}  # atom name -> (kind "fd" floor division | "cd" ceiling division | "md" modulo, N, K) as polynomials
+_BITS = {}  # atom name -> (tag "band" | "bor" | "bxor", A, B)
+
+
+def _int_const(p):
+    c = p.const_value()
+    return int(c) if c is not None and c.denominator == 1 else None
+
+
+def _div_atom(kind, n, k):
+    cn, ck = _int_const(n), _int_const(k)
+    if cn is not None and ck is not None and ck != 0:  # constant folding
+        return SymPoly.const({"fd": cn // ck, "md": cn % ck, "cd": -(-cn // ck)}[kind])
+    name = f"{kind}({n!r}, {k!r})"
+    _DIVS[name] = (kind, n, k)
+    return SymPoly.atom(name)
+
+
+def _P(e, lenf=None):
+    """Polynomial normal form of an integer term (None when the term is not arithmetic).  `a // b`, `a % b`,
+    `-(-a // b)`, `divmod(a, b)[i]` become atoms fd/md/cd over the normal forms of their operands (L3, L4), shifts by a
+    constant become multiplication / floor division by a power of two (L4), `&`, `|`, `^` become commutative opaque
+    atoms, `len(t)` is resolved by `lenf` (length algebra) when given, any other call / attribute / index is an atom
+    named by its text."""
+
+    def P(x):
+        r = sympoly(x, sub)
+        if r is None:
+            raise _NoPoly(src(x))
+        return r
+
+    def sub(n):
+        if isinstance(n, ast.UnaryOp):
+            if isinstance(n.op, ast.UAdd):
+                return P(n.operand)
+            o = n.operand
+            if isinstance(n.op, ast.USub) and isinstance(o, ast.BinOp) and isinstance(o.op, ast.FloorDiv) and isinstance(o.left, ast.UnaryOp) and isinstance(o.left.op, ast.USub):
+                return _div_atom("cd", P(o.left.operand), P(o.right))
+            return None
+        if isinstance(n, ast.BinOp):
+            if isinstance(n.op, ast.FloorDiv):
+                return _div_atom("fd", P(n.left), P(n.right))
+            if isinstance(n.op, ast.Mod):
+                return _div_atom("md", P(n.left), P(n.right))
+            if isinstance(n.op, (ast.LShift, ast.RShift)):
+                k = _c(n.right)
+                if not isinstance(k, int) or isinstance(k, bool) or not 0 <= k <= 64:
+                    raise _NoPoly(src(n))
+                return P(n.left) * SymPoly.const(2 ** k) if isinstance(n.op, ast.LShift) else _div_atom("fd", P(n.left), SymPoly.const(2 ** k))
+            if isinstance(n.op, (ast.BitAnd, ast.BitOr, ast.BitXor)):
+                tag = {ast.BitAnd: "band", ast.BitOr: "bor", ast.BitXor: "bxor"}[type(n.op)]
+                a, b = sorted((P(n.left), P(n.right)), key=repr)
+                name = f"{tag}({a!r}, {b!r})"
+                _BITS[name] = (tag, a, b)
+                return SymPoly.atom(name)
+            return None
+        if isinstance(n, ast.Subscript):
+            v = n.value
+            if isinstance(v, ast.Call) and dotted(v.func) == "divmod" and len(v.args) == 2 and not v.keywords and isinstance(n.slice, ast.Constant) and n.slice.value in (0, 1) and not isinstance(n.slice.value, bool):
+                return _div_atom("fd" if n.slice.value == 0 else "md", P(v.args[0]), P(v.args[1]))
+            if isinstance(n.slice, ast.Slice):
+                raise _NoPoly(src(n))
+            return SymPoly.atom(src(n))
+        if isinstance(n, ast.Call) and dotted(n.func) == "len" and len(n.args) == 1 and not n.keywords:
+            r = lenf(n.args[0]) if lenf is not None else None
+            return r if r is not None else SymPoly.atom(src(n))
+        return None
+
+    try:
+        return P(e)
+    except _NoPoly:
+        return None
+
+
+_INF = float("inf")
+
+
+def _iv_norm(ivs):
+    """Interval set (sorted disjoint closed integer intervals, bounds may be +-inf)."""
+    out = []
+    for lo, hi in sorted((lo, hi) for lo, hi in ivs if lo <= hi and lo != _INF and hi != -_INF):
+        if out and lo <= out[-1][1] + 1:
+            out[-1] = (out[-1][0], max(out[-1][1], hi))
+        else:
+            out.append((lo, hi))
+    return out
+
+
+def _iv_and(a, b):
+    return _iv_norm([(max(l1, l2), min(h1, h2)) for l1, h1 in a for l2, h2 in b])
+
+
+def _iv_or(a, b):
+    return _iv_norm(list(a) + list(b))
+
+
+def _iv_not(a, dom):
+    out, lo = [], dom[0]
+    for l, h in _iv_norm(a):
+        out.append((lo, l - 1))
+        lo = h + 1
+    out.append((lo, dom[1]))
+    return _iv_and(out, [dom])
+
+
+def _iv_cmp(op, c, dom):
+    """{v in dom : v op c}"""
+    t = {ast.Eq: [(c, c)], ast.NotEq: [(-_INF, c - 1), (c + 1, _INF)], ast.Lt: [(-_INF, c - 1)], ast.LtE: [(-_INF, c)], ast.Gt: [(c + 1, _INF)], ast.GtE: [(c, _INF)]}[op]
+    return _iv_and(t, [dom])
+
+
+def _iv_text(a):
+    return " u ".join(f"{lo}" if lo == hi else f"[{lo}, {hi}]" for lo, hi in a) or "{}"
+
+
+_OPS6 = (ast.Eq, ast.NotEq, ast.Lt, ast.LtE, ast.Gt, ast.GtE)
+_FLIP = {ast.Lt: ast.Gt, ast.LtE: ast.GtE, ast.Gt: ast.Lt, ast.GtE: ast.LtE, ast.Eq: ast.Eq, ast.NotEq: ast.NotEq}
+
+
+def _cmp_poly(a, lenf=None):
+    """A test as `d op 0` with d in polynomial normal form -> (d, op type); a bare integer term t is `t != 0`."""
+    if isinstance(a, ast.Compare):
+        if len(a.ops) != 1 or type(a.ops[0]) not in _OPS6:
+            return None
+        l, r = _P(a.left, lenf), _P(a.comparators[0], lenf)
+        if l is None or r is None:
+            return None
+        return l - r, type(a.ops[0])
+    p = _P(a, lenf)
+    return None if p is None else (p, ast.NotEq)
+
+
+def _int_test(a):
+    """A test over ONE integer atom with coefficient +-1 -> (atom, op type, integer constant) with a <=> atom op constant
+    (mirrored comparisons, constants on either side and `x - c op 0` spellings all arrive here in the same form)."""
+    r = _cmp_poly(a)
+    if r is None:
+        return None
+    d, op = r
+    keys = [k for k in d.terms if k != ()]
+    if len(keys) != 1 or len(keys[0]) != 1:
+        return None
+    coef, c = d.terms[keys[0]], d.terms.get((), Fraction(0))
+    if coef not in (1, -1) or c.denominator != 1:
+        return None
+    if coef == 1:
+        return keys[0][0], op, int(-c)  # x + c op 0  <=>  x op -c
+    return keys[0][0], _FLIP[op], int(c)  # -x + c op 0  <=>  x flip(op) c
+
+
+def _atom_set(a, atom, dom):
+    """Interval set of the values of the integer atom for which test `a` holds; None when `a` is not such a test."""
+    t = _int_test(a)
+    if t is None or t[0] != atom:
+        return None
+    return _iv_cmp(t[1], t[2], dom)
+
+
+class _Facts:
+    """Polynomials known to be >= 0 on a path (read off its conditions) and a prover for `P >= 0` that uses them, the
+    non-negativity of lengths and the division lemmas L2, L3, L5, L6.  `seqs`: names that denote byte sequences."""
+
+    def __init__(self, seqs):
+        self.seqs = set(seqs)
+        self.ge = []
+        self.unknown = []  # conditions that mention a sequence but are not linear facts
+
+    def add_cond(self, a, pol):
+        if isinstance(a, ast.Name) and a.id in self.seqs:  # truthiness of a sequence: len != 0
+            ln = SymPoly.atom(f"len({a.id})")
+            self.ge.append(ln - _ONE if pol else -ln)
+            return
+        r = _cmp_poly(a, self.len_poly) if not isinstance(a, ast.Name) else None
+        if r is None:
+            if any(_mentions(a, s) for s in self.seqs):
+                self.unknown.append(a)
+            return
+        d, op = r
+        if not pol:
+            op = {ast.Lt: ast.GtE, ast.LtE: ast.Gt, ast.Gt: ast.LtE, ast.GtE: ast.Lt, ast.Eq: ast.NotEq, ast.NotEq: ast.Eq}[op]
+        if op is ast.Lt:
+            self.ge.append(-d - _ONE)
+        elif op is ast.LtE:
+            self.ge.append(-d)
+        elif op is ast.Gt:
+            self.ge.append(d - _ONE)
+        elif op is ast.GtE:
+            self.ge.append(d)
+        elif op is ast.Eq:
+            self.ge.extend([d, -d])
+
+    def mentions(self, atom):
+        return any(atom in f.atoms() for f in self.ge)
+
+    def _pos(self, k, depth):
+        c = k.const_value()
+        if c is not None:
+            return c >= 1
+        keys = list(k.terms)
+        if len(keys) == 1 and len(keys[0]) == 1 and keys[0][0].startswith("len(") and k.terms[keys[0]] == 1:
+            return True  # L5: an evaluated division by a length has a divisor >= 1
+        return self.ge0(k - _ONE, depth + 1) is True
+
+    def _lemmas(self, p, depth):
+        out = []
+        for name in sorted(p.atoms()):
+            a = SymPoly.atom(name)
+            if name.startswith("len("):
+                out.append(a)  # L5: a length is >= 0
+            d = _DIVS.get(name)
+            if d is None:
+                continue
+            kind, n, k = d
+            if not self._pos(k, depth):
+                continue
+            if kind == "fd":
+                out += [k * a + k - n - _ONE, n - k * a]  # L2
+            elif kind == "cd":
+                out += [k * a - n, n + k - _ONE - k * a]  # L3
+            else:
+                out += [a, k - _ONE - a]  # L6
+            if kind != "md" and self.ge0(n, depth + 1) is True:
+                out.append(a)  # L6
+        return out
+
+    def ge0(self, p, depth=0):
+        """True when `p >= 0` follows; None otherwise (nothing is claimed)."""
+        c = p.const_value()
+        if c is not None:
+            return True if c >= 0 else None
+        if depth > 2:
+            return None
+        facts = list(self.ge) + self._lemmas(p, depth)
+
+        def nonneg_const(q):
+            v = q.const_value()
+            return v is not None and v >= 0
+
+        for f in facts:
+            if nonneg_const(p - f):
+                return True
+        for i, f1 in enumerate(facts):
+            for f2 in facts[i:]:
+                if nonneg_const(p - f1 - f2):
+                    return True
+        return None
+
+    def len_poly(self, t):
+        """Length of a byte-sequence term in normal form (L1), None when the term / a needed side condition is unknown."""
+        t = _strip_view(t)
+        if isinstance(t, ast.Name):
+            return SymPoly.atom(f"len({t.id})") if t.id in self.seqs else None
+        if isinstance(t, ast.Constant) and isinstance(t.value, (bytes, str)):
+            return SymPoly.const(len(t.value))
+        if isinstance(t, ast.BinOp) and isinstance(t.op, ast.Mult):
+            for s, q in ((t.left, t.right), (t.right, t.left)):
+                ls = self.len_poly(s)
+                if ls is None:
+                    continue
+                pq = _P(q, self.len_poly)
+                if pq is None or self.ge0(pq) is not True:
+                    return None
+                return ls * pq
+            return None
+        if isinstance(t, ast.BinOp) and isinstance(t.op, ast.Add):
+            a, b = self.len_poly(t.left), self.len_poly(t.right)
+            return None if a is None or b is None else a + b
+        if isinstance(t, ast.Subscript) and isinstance(t.slice, ast.Slice):
+            sl = t.slice
+            if (sl.lower is not None and _c(sl.lower) != 0) or (sl.step is not None and _c(sl.step) != 1):
+                return None
+            lx = self.len_poly(t.value)
+            if lx is None or sl.upper is None:
+                return lx
+            h = _P(sl.upper, self.len_poly)
+            if h is None or self.ge0(h) is not True:
+                return None
+            if self.ge0(lx - h) is True:
+                return h
+            if self.ge0(h - lx) is True:
+                return lx
+            return None
+        return None
+
+
+def _facts_of(conds, seqs):
+    f = _Facts(seqs)
+    for a, pol in conds:
+        f.add_cond(_unview(a, seqs), pol)
+    return f
+
+
+def _scale(iv, c):
+    if c == 0:
+        return Itv.const(0)
+    lo = None if iv.lo is None else iv.lo * c
+    hi = None if iv.hi is None else iv.hi * c
+    return Itv(lo, hi) if c > 0 else Itv(hi, lo)
+
+
+def _decide(iv, op):
+    """Truth of `v op 0` for all v in the interval: "T", "F" or "B" (both outcomes occur inside the interval)."""
+    lo = -_INF if iv.lo is None else iv.lo
+    hi = _INF if iv.hi is None else iv.hi
+    t, f = {
+        ast.Eq: (lo == hi == 0, lo > 0 or hi < 0), ast.NotEq: (lo > 0 or hi < 0, lo == hi == 0),
+        ast.Lt: (hi < 0, lo >= 0), ast.LtE: (hi <= 0, lo > 0), ast.Gt: (lo > 0, hi <= 0), ast.GtE: (lo >= 0, hi < 0),
+    }[op]
+    return "T" if t else "F" if f else "B"
+
+
+def _lin_test(a, iv_of):
+    """Three-valued outcome of a test whose normal form is linear over atoms with known intervals (`iv_of(atom)` ->
+    (Itv, reads-key-content) | None | "R"): ("T"|"F"|"B", reads-key-content), "R" (evaluating the test raises) or None."""
+    r = _cmp_poly(a)
+    if r is None:
+        return None
+    d, op = r
+    tot, content = Itv.const(0), False
+    for k, coef in d.terms.items():
+        if coef.denominator != 1 or len(k) > 1:
+            return None
+        if k == ():
+            tot = tot + Itv.const(int(coef))
+            continue
+        v = iv_of(k[0])
+        if v is None or v == "R":
+            return v
+        tot = tot + _scale(v[0], int(coef))
+        content = content or v[1]
+    return _decide(tot, op), content
+
+
+def _atom_node(name):
+    try:
+        return ast.parse(name, mode="eval").body
+    except SyntaxError:
+        return None
 
 
 # ===================================================================================================== path executor
@@ -371,7 +735,7 @@ class _Exec:
 
             def visit_IfExp(self, n):
                 self.generic_visit(n)
-                t = _truth(n.test, {})
+                t = _truth(n.test)
                 if t is True:
                     return n.body
                 if t is False:
@@ -424,7 +788,7 @@ class _Exec:
             return alts
         if isinstance(t, ast.Call) and dotted(t.func) == "bool" and len(t.args) == 1 and not t.keywords:
             return self.split(t.args[0])
-        v = _truth(t, {})
+        v = _truth(t)
         if v in (True, False):
             return [([], v)]
         inl = self.inline_test(t)
@@ -802,39 +1166,38 @@ def _cond_text(conds):
     return [("" if pol else "not ") + src(a) for a, pol in conds]
 
 
-def _feasible(st, env, about=()):
-    """Are the path conditions of `st` consistent with the valuation `env`?  -> (feasible, unknown conditions that
-    mention one of the names in `about`)."""
-    unknown = []
-    for a, pol in st.conds:
-        t = _truth(a, env)
-        if t is None:
-            if any(_mentions(a, p) for p in about):
-                unknown.append(a)
-            continue
-        if t == "raises":
-            return False, unknown
-        if t != pol:
-            return False, unknown
-    return True, unknown
-
 
 # ===================================================================================================== run
 def run(ctx):
     rep = ctx.rep
     rep.explanation = (
         "Static analysis of utils.py and pcap.find_staged_beacon on symbolic path terms (locals substituted by their definitions over "
-        "the parameters, tests split at and/or/not): xor() returns its input on exactly the paths an empty key takes and never for a "
-        "key with a non-zero byte, otherwise int.to_bytes(from_bytes(data) ^ from_bytes(keystream), len(data), ..) with one byte order "
-        "and a keystream that is the key repeated and cut to len(data) (lengths and tiling factor decided exhaustively over small "
-        "lengths); the pack/unpack partials are compared completely with the widths/byte orders their names promise and pack/unpack "
-        "pass byteorder/signed through; checksum8 and the classifier constants/regular language are decided over the finite checksum "
-        "domain and probe strings; a generated stager URI is returned only on the true edge of its own classifier applied to that very "
-        "value; the staged beacon extraction is reachable with a known request only on paths with a positive stager test of the "
-        "request URI; the NetBIOS decoder applied to the encoder's two symbols gives back every byte for every probed offset."
+        "the parameters, tests split at and/or/not, loop bodies walked once; nothing is evaluated on data): xor() returns its input on "
+        "the paths an empty key takes and on no path a key with a non-zero byte can take (abstract key domain empty / all-zero / "
+        "non-zero with interval transfer for len, sum, any, modular and partial tests), otherwise int.to_bytes(from_bytes(data) ^ "
+        "from_bytes(keystream), len(data), ..) with one unsigned byte order, the length argument equal to len(data) in polynomial "
+        "normal form and a keystream that is the key repeated from its first byte and cut to len(data) (length algebra of slices and "
+        "repetitions, tiling lemmas k*(n//k+1) > n, k*ceil(n/k) >= n); the pack/unpack partials are compared completely with the "
+        "widths/byte orders their names promise and pack/unpack pass byteorder/signed through, pack sizing with ceil(bit_length/8) "
+        "exactly in the case size is None; checksum8 returns 0 on exactly the text lengths [0, 3] and the code point sum without '/' "
+        "modulo 256 on [4, inf) (interval sets from the path conditions); the classifiers' true-alternatives cover exactly checksum "
+        "value 92 / 93 (interval sets over [0, 255]) and for x64 the parsed regular expression is '/' + exactly four characters of the "
+        "class [0-9A-Za-z] anchored at both ends (syntax tree, flags); a generated stager URI is returned only on the true edge of its "
+        "own classifier applied to that very value, for admitted lengths within [3, inf) (x64: {4}), built as '/' + `length` draws from "
+        "an alphabet inside [0-9A-Za-z]; the staged beacon extraction is reachable with a known request only on paths with a positive "
+        "stager test of the request URI; the NetBIOS encoder emits (high nibble + offset, low nibble + offset) per byte (structural "
+        "nibble forms) and the decoder term over the pair positions (2j, 2j+1) is 16*(x - offset) + (y - offset) in normal form."
     )
-    rep.not_decided = ["self-inverse / inverse laws over all inputs (only the structural conditions and bounded arithmetic)", "odd-length NetBIOS input", "width limits of pack()"]
-    rep.trusted_base = ["CPython ast", "int.from_bytes / to_bytes semantics", "CPython re (for the x64 URI pattern only)", "checker-internal evaluator of pure expressions"]
+    rep.not_decided = [
+        "self-inverse / inverse laws as such (only the structural conditions that imply them, via the lemmas in the module docstring)",
+        "odd-length NetBIOS input", "width limits of pack()", "`$` matching before one trailing newline in the x64 pattern",
+        "spellings outside the recognised algebraic forms (reported as undecided)",
+    ]
+    rep.trusted_base = [
+        "CPython ast", "int.from_bytes / to_bytes semantics", "CPython re._parser (parse tree of the x64 URI pattern; nothing is matched)",
+        "constant folder for constant expressions (string module constants, re flags)", "csverif.absint (SymPoly normal form, Itv)",
+        "lemmas L1-L24 of the rules/c20.py docstring (length algebra, floor/ceiling division, known-bits facts for a byte, regex anchor/class semantics)",
+    ]
     from csverif import AnalysisError
 
     for rule, fn, anchor in (("R1", r1, "utils.py::xor"), ("R2", r2, "utils.py::pack/unpack"), ("R3", r3, "utils.py::checksum8"), ("R4", r4, "utils.py::random_stager_uri"),
@@ -860,17 +1223,89 @@ def _try_paths(ctx, rule, kind, f, text, preset=None, resolver=None):
 
 
 # ===================================================================================================== R1 xor
-_KEY_REPS = {
-    "E": [b""],
-    "Z": [b"\x00", b"\x00\x00\x00"],
-    "N": [b"\x01", b"\x00\x05", b"\x07\x00", b"\xff\xff\x03", b"\x80\x80", b"\x00\x00\x09\x00", b"\x02" * 9, b"\x00" * 6 + b"\x01", b"\x01" + b"\x00" * 6,
-          b"\x00" * 17 + b"\x40", bytes(range(256))],
-}
-_DATA_REPS = [b"", b"a", b"\x00\x00", b"abcdef", b"\x01\x02\x03\x04\x05\x06\x07\x08\x09\x0a\x0b"]
+def _key_iv(name, cls, data_nonempty, data, key):
+    """Interval of an integer atom of a test under the abstract key class (E empty, Z non-empty all-zero, N has a non-zero
+    byte) and the data assumption -> (Itv, reads-key-content) | None (atom not modelled) | "R" (reading it raises)."""
+    klen = Itv.const(0) if cls == "E" else Itv(1, None)
+    dlen = Itv(1, None) if data_nonempty else Itv(0, None)
+    d = _DIVS.get(name)
+    if d is not None:
+        kind, n, k = d
+        m = _int_const(k)
+        keys = list(n.terms)
+        if kind == "md" and m is not None and m >= 2 and len(keys) == 1 and len(keys[0]) == 1 and n.terms[keys[0]] == 1:
+            v = _key_iv(keys[0][0], cls, data_nonempty, data, key)
+            if v is None or v == "R":
+                return v
+            if v[0].lo == v[0].hi == 0:
+                return Itv.const(0), v[1]
+            if v[0].lo is not None and v[0].lo >= 0 and v[0].hi is None:
+                return Itv(0, m - 1), True  # L8: every residue occurs
+        return None
+    n = _atom_node(name)
+    if n is None:
+        return None
+    if isinstance(n, ast.Name):  # truthiness of the sequence itself
+        return (klen, False) if n.id == key else (dlen, False) if n.id == data else None
+    if not isinstance(n, (ast.Call, ast.Subscript)):
+        return None
+
+    def part(x):
+        """x is key[<slice with constant bounds>] -> True, key -> False, else None"""
+        if _is_param(x, key):
+            return False
+        if isinstance(x, ast.Subscript) and _is_param(x.value, key) and isinstance(x.slice, ast.Slice) and all(b is None or isinstance(_c(b), int) for b in (x.slice.lower, x.slice.upper, x.slice.step)):
+            return True
+        return None
+
+    if isinstance(n, ast.Subscript):  # key[c]: one byte of the key
+        if _is_param(n.value, key) and isinstance(_c(n.slice), int):
+            if cls == "E":
+                return "R"
+            if cls == "Z":
+                return (Itv.const(0), True) if _c(n.slice) in (0, -1) else None
+            return Itv(0, 255), True  # L8
+        return None
+    fn = dotted(n.func)
+    if len(n.args) != 1 or n.keywords:
+        return None
+    a = n.args[0]
+    if fn == "len":
+        return (klen, False) if _is_param(a, key) else (dlen, False) if _is_param(a, data) else None
+    if fn in ("sum", "any"):
+        p = part(a)
+        if p is None:
+            return None
+        if cls in ("E", "Z"):
+            return Itv.const(0), True  # L7
+        if p:
+            return (Itv(0, None) if fn == "sum" else Itv(0, 1)), True  # L8
+        return (Itv(1, None) if fn == "sum" else Itv.const(1)), True  # L7
+    return None
 
 
-def _bpat(n, seed):
-    return bytes(((i * seed + 1) % 255) + 1 for i in range(n))
+def _div_by_len(e, key):
+    """Does the term divide (//, %, divmod) by len(key)?"""
+    want = f"len({key})"
+    for n in ast.walk(_unview(e, {key})):
+        if isinstance(n, ast.BinOp) and isinstance(n.op, (ast.FloorDiv, ast.Mod, ast.Div)) and src(n.right) == want:
+            return True
+        if isinstance(n, ast.Call) and dotted(n.func) == "divmod" and len(n.args) == 2 and src(n.args[1]) == want:
+            return True
+    return False
+
+
+def _other_raisers(states, key):
+    """Divisions whose divisor is neither a constant nor len(key): exception sources the key domain does not model."""
+    want = f"len({key})"
+    for s in states:
+        for _st, v in s.events:
+            for n in ast.walk(_unview(v, {key})):
+                d = n.right if isinstance(n, ast.BinOp) and isinstance(n.op, (ast.FloorDiv, ast.Mod, ast.Div)) and not isinstance(n.left, ast.Constant) else \
+                    n.args[1] if isinstance(n, ast.Call) and dotted(n.func) == "divmod" and len(n.args) == 2 else None
+                if d is not None and _c(d) is None and src(d) != want:
+                    return src(n)[:60]
+    return None
 
 
 def _xor_elementwise(v, data, key):
@@ -912,33 +1347,78 @@ def _xor_elementwise(v, data, key):
     k_side = [s for s in sides if isinstance(s, ast.Subscript) and _is_param(s.value, key) and not isinstance(s.slice, ast.Slice)]
     if len(d_side) != 1 or len(k_side) != 1 or d_side[0] is k_side[0]:
         return None
-    e = _abstract(k_side[0].slice, {f"len({key})": "$n"})
-    try:
-        return all(_ev(e, {idx: i, "$n": n}) == i % n for n in range(1, 6) for i in range(0, 14))
-    except _NoEval:
+    # the key index in normal form: md(i, len(key)) is the periodic reading; the bare index i is not periodic (it runs
+    # past a key shorter than the data)
+    p = _P(k_side[0].slice)
+    i, n = SymPoly.atom(idx), SymPoly.atom(f"len({key})")
+    if p is None:
         return None
-
-
-def _path_raises(st, env):
-    """Does one of the computations on the path raise for this valuation (so the path is left by an exception)?"""
-    for _stmt, v in st.events:
-        try:
-            _ev(v, env)
-        except _Raises:
-            return True
-        except _NoEval:
-            continue
-    return False
+    if p == _div_atom("md", i, n):
+        return True
+    if p == i or p == _div_atom("md", i, SymPoly.atom(f"len({data})")):  # L24: i % len(data) == i for the indices 0 <= i < len(data)
+        return False
+    return None
 
 
 def _is_handler_path(st):
     return any(isinstance(a, ast.Name) and a.id.startswith("$except@") for a, _p in st.conds)
 
 
+def _keystream(K, F, data, key):
+    """Is the key operand `K` of the XOR the key repeated from its first byte and cut to exactly len(data) bytes, under
+    the path facts F?  -> (True | False | None, explanation)."""
+    n, kl = SymPoly.atom(f"len({data})"), SymPoly.atom(f"len({key})")
+    vocab_ok = lambda p: all(a in (f"len({data})", f"len({key})") or a in _DIVS for a in p.atoms())  # noqa: E731
+    K = _strip_view(K)
+    X, cut = K, None
+    if isinstance(K, ast.Subscript) and isinstance(K.slice, ast.Slice):
+        sl = K.slice
+        if sl.step is not None and _c(sl.step) != 1:
+            return (False, f"the key is read with stride {_c(sl.step)}") if isinstance(_c(sl.step), int) else (None, f"slice step `{src(sl.step)}`")
+        if sl.lower is not None and _c(sl.lower) != 0:
+            return (False, f"the keystream starts at key byte {_c(sl.lower)}, not at the first byte") if isinstance(_c(sl.lower), int) else (None, f"slice start `{src(sl.lower)}`")
+        X = _strip_view(K.value)
+        if sl.upper is not None:
+            cut = _P(sl.upper, F.len_poly)
+            if cut is None:
+                return None, f"cut position `{src(sl.upper)[:60]}` is not arithmetic"
+            if cut != n:
+                return (False, f"the keystream is cut to {cut!r} bytes, not len({data})") if vocab_ok(cut) else (None, f"cut position {cut!r}")
+    # X: the material that is cut
+    if _is_param(X, key):
+        lx, what = kl, "the bare key"
+    elif isinstance(X, ast.BinOp) and isinstance(X.op, ast.Mult) and (_is_param(_strip_view(X.left), key) or _is_param(_strip_view(X.right), key)):
+        q = _P(X.right if _is_param(_strip_view(X.left), key) else X.left, F.len_poly)
+        if q is None:
+            return None, f"repetition factor in `{src(X)[:60]}` is not arithmetic"
+        lx, what = kl * q, f"the key repeated {q!r} times"
+    else:
+        return None, f"keystream material `{src(X)[:80]}` is not the key or a repetition of the key"
+    if cut is None:
+        # not cut: its length itself must be len(data)
+        if lx == n or (F.ge0(lx - n) is True and F.ge0(n - lx) is True):
+            return True, f"{what} has exactly len({data}) bytes on this path"
+        if F.unknown or not vocab_ok(lx):
+            return None, f"{what} is not cut and its length {lx!r} is not comparable with len({data})"
+        return False, f"{what} is not cut to size: it has {lx!r} bytes, required len({data})"
+    if F.ge0(lx - n) is True:
+        return True, f"{what} has at least len({data}) bytes on this path (L2/L3 or the path condition) and is cut to len({data})"
+    if F.unknown or not vocab_ok(lx):
+        return None, f"cannot relate the length {lx!r} of {what} to len({data})"
+    if F.ge0(n - lx) is True and lx == kl:
+        return False, f"{what} is not repeated on a path that admits len({key}) < len({data}): the keystream is shorter than the data there"
+    if F.ge0(n - lx) is True:
+        return False, f"{what} has at most len({data}) bytes ({lx!r}; strictly fewer e.g. when len({key}) does not divide len({data}), L9), so the keystream is shorter than the data"
+    if not F.mentions(f"len({key})") and lx == kl:
+        return False, f"{what} is cut to len({data}) without being repeated: shorter than the data for every key shorter than the data"
+    return None, f"cannot relate the length {lx!r} of {what} to len({data})"
+
+
 def r1(ctx):
     f = ctx.repo.func("utils.xor")
     ps = params(f.node)
     data, key = ps[0], ps[1]
+    seqs = {data, key}
     ex, states = _try_paths(ctx, "R1", "ABS", f, "return kinds")
     if states is None:
         return
@@ -953,40 +1433,80 @@ def r1(ctx):
     ctx.ob("R1", "ABS", f, "return kinds", bool(rets) and not falls and all(s.end[1] is not None for s in rets),
            f"{len(ident)} identity return path(s), {len(other)} computed return path(s), {len(falls)} path(s) falling off the end")
 
-    # ---- identity shortcut: exactly the empty key must take it; a key with a non-zero byte must never take it
+    # ---- identity shortcut, decided over the abstract key domain {E empty, Z all-zero, N some byte non-zero}:
+    #      every E key must end in an identity return (or compute the empty result of empty data); no N key with non-empty
+    #      data may take an identity return
+    def status(s, cls, data_nonempty):
+        """(can keys of the class take the path?, number of both-ways tests that read key content, undecidable tests)"""
+        nb, unk = 0, []
+        for a, pol in s.conds:
+            a = _unview(a, seqs)
+            if not (_mentions(a, key) or _mentions(a, data)):
+                continue
+            r = _lin_test(a, lambda name: _key_iv(name, cls, data_nonempty, data, key))
+            if r is None:
+                unk.append(a)
+            elif r == "R":
+                return False, nb, unk
+            elif r[0] == "B":
+                nb += 1 if r[1] else 0
+            elif (r[0] == "T") != pol:
+                return False, nb, unk
+        return True, nb, unk
+
     bad, unknown = [], []
-    for cls in ("E", "Z", "N"):
-        for kr in _KEY_REPS[cls]:
-            for dr in _DATA_REPS:
-                env = {data: dr, key: kr}
-                for s in rets:
-                    feas, unk = _feasible(s, env, (data, key))
-                    if not feas:
-                        continue
-                    wrong = None
-                    if cls == "E" and not identity(s):
-                        if dr == b"" and not _path_raises(s, env):
-                            continue  # empty data with an empty key: the (empty) computed result is the data
-                        if _path_raises(s, env) and any(identity(h) and _is_handler_path(h) and _feasible(h, env)[0] for h in rets):
-                            continue  # the division by len(key) raises and an exception handler returns the data
-                        wrong = "an empty key reaches the computed result (key repetition divides by len(key))"
-                    elif cls == "N" and dr and identity(s):
-                        if _is_handler_path(s) and not any(_path_raises(t, env) for t in states if not _is_handler_path(t) and _feasible(t, env)[0]):
-                            continue  # an exception handler that nothing enters for this input
-                        wrong = f"a key with a non-zero byte ({kr!r}) returns non-empty data unchanged"
-                    if wrong:
-                        (unknown if unk else bad).append((wrong, _cond_text(s.conds)))
-    # an empty key must reach some identity return at all
+    e_ident = e_maybe = False
+    for s in rets:
+        feas, _nb, unk = status(s, "E", False)
+        if not feas:
+            continue
+        if identity(s):
+            if unk:
+                e_maybe = True
+            else:
+                e_ident = True
+            continue
+        F = _facts_of(s.conds, seqs)
+        F.ge.append(-SymPoly.atom(f"len({key})"))  # class E: len(key) == 0
+        if any(_div_by_len(v, key) for _st, v in s.events):
+            handlers = [h for h in rets if identity(h) and _is_handler_path(h) and status(h, "E", False)[0]]
+            if handlers:
+                e_ident = True  # the division by len(key) == 0 raises and an exception handler returns the data
+                continue
+            wrong = "an empty key reaches the computed result (the key repetition divides by len(key) == 0)"
+        elif F.ge0(-SymPoly.atom(f"len({data})")) is True:
+            continue  # the path conditions force empty data: the (empty) computed result is the data
+        else:
+            wrong = "an empty key reaches the computed result instead of the unchanged data"
+        (unknown if unk else bad).append((wrong, _cond_text(s.conds)))
+    for s in ident:
+        feas, nb, unk = status(s, "N", True)
+        if not feas:
+            continue
+        if _is_handler_path(s):
+            # entered only when the try body raises: with len(key) >= 1 the divisions by len(key) do not (L5)
+            o = _other_raisers(states, key)
+            if o:
+                unknown.append((f"an exception handler returns the data and the key domain does not model whether `{o}` can raise", _cond_text(s.conds)))
+            continue
+        wrong = "a key with a non-zero byte can return non-empty data unchanged (L7/L8)"
+        if unk or nb > 1:
+            unknown.append((wrong + ("" if unk else ": several tests of key content, joint outcome not decided"), _cond_text(unk and [(x, True) for x in unk] or s.conds)))
+        else:
+            bad.append((wrong, _cond_text(s.conds)))
     if not ident:
         bad.append(("no path returns the data unchanged (empty or all-zero keys are not the identity)", []))
+    elif not e_ident and not bad and not unknown:
+        (unknown if e_maybe else bad).append(("no identity return is reachable by an empty key", [_cond_text(s.conds) for s in ident][:2]))
     if bad:
         ctx.ob("R1", "ABS", f, "return data", False, f"identity shortcut: {bad[0][0]}; path conditions {bad[0][1]}; required: taken by every empty key, never by a key with a non-zero byte", ident[0].end[2] if ident else None)
     elif unknown:
-        ctx.undecided("R1", "ABS", f, "return data", f"identity shortcut guarded by a test on the key/data the evaluator cannot decide: {unknown[0][1]}")
+        ctx.undecided("R1", "ABS", f, "return data", f"identity shortcut guarded by a test on the key/data outside the key domain's transfer rules: {unknown[0][0]}; {unknown[0][1]}")
     else:
-        ctx.ob("R1", "ABS", f, "return data", True, f"the unchanged data is returned on exactly the paths empty and all-zero keys take ({[_cond_text(s.conds) for s in ident]}), never for a key with a non-zero byte and non-empty data", ident[0].end[2])
+        ctx.ob("R1", "ABS", f, "return data", True, f"the unchanged data is returned on the paths empty and all-zero keys take ({[_cond_text(s.conds) for s in ident]}), on no path a key with a non-zero byte and non-empty data can take", ident[0].end[2])
 
     # ---- computed result
+    n = SymPoly.atom(f"len({data})")
     for s in other:
         v = s.end[1]
         node = s.end[2]
@@ -1015,49 +1535,23 @@ def r1(ctx):
             else:
                 ctx.undecided("R1", "ABS", f, "return int.to_bytes(.., len(data), ..)", f"cannot tell the data operand from the key operand in {[src(x['bytes'])[:80] for x in fbs]}", node)
             continue
-        K, L = k_ops[0]["bytes"], tb["length"]
-        len_bad = key_bad = None
-        undec = None
-        checked = 0
-        for slen in range(0, 10):
-            for n in range(1, 8):
-                env = {data: _bpat(slen, 7), key: _bpat(n, 13)}
-                feas, _unk = _feasible(s, env)
-                if not feas:
-                    continue
-                checked += 1
-                try:
-                    lv = _ev(L, env)
-                    if lv != slen and len_bad is None:
-                        len_bad = f"len(data)={slen}, len(key)={n}: length argument is {lv}"
-                except _Raises as x:
-                    len_bad = len_bad or f"len(data)={slen}, len(key)={n}: length argument raises {x}"
-                except _NoEval as x:
-                    undec = undec or f"length argument `{src(L)[:80]}` not evaluable ({x})"
-                try:
-                    kv = bytes(_ev(K, env))
-                    want = (env[key] * (slen // n + 1))[:slen]
-                    if kv != want and key_bad is None:
-                        key_bad = f"len(data)={slen}, len(key)={n}: keystream has length {len(kv)}" + ("" if len(kv) != slen else " but is not the key repeated from its first byte")
-                except _Raises as x:
-                    key_bad = key_bad or f"len(data)={slen}, len(key)={n}: keystream raises {x}"
-                except (_NoEval, TypeError, ValueError) as x:
-                    undec = undec or f"keystream `{src(K)[:80]}` not evaluable ({x})"
-        if checked == 0:
-            undec = undec or "no probed length combination takes this path"
-        if len_bad or not ord_ok:
+        K, L = _unview(k_ops[0]["bytes"], seqs), _unview(tb["length"], seqs)
+        F = _facts_of(s.conds, seqs)
+        # length argument: len(data) in normal form (len of slices / repetitions resolved by the length algebra L1)
+        pl = _P(L, F.len_poly)
+        vocab = all(a in (f"len({data})", f"len({key})") or a in _DIVS for a in pl.atoms()) if pl is not None else False
+        if not ord_ok or (pl is not None and pl != n and vocab and not F.unknown):
             ctx.ob("R1", "ABS", f, "return int.to_bytes(.., len(data), ..)", False,
-                   f"result length must be len({data}) ({len_bad or 'ok'}); one unsigned byte order for both from_bytes and to_bytes: {orders}, signed={signed} -> {ord_ok}", node)
-        elif undec and "length" in undec:
-            ctx.undecided("R1", "ABS", f, "return int.to_bytes(.., len(data), ..)", undec, node)
+                   f"result length must be len({data}) (length argument is {pl!r} on the path {_cond_text(s.conds)}); one unsigned byte order for both from_bytes and to_bytes: {orders}, signed={signed} -> {ord_ok}", node)
+        elif pl is None or pl != n:
+            ctx.undecided("R1", "ABS", f, "return int.to_bytes(.., len(data), ..)", f"length argument `{src(L)[:80]}` ({pl!r}) is outside the length algebra", node)
         else:
-            ctx.ob("R1", "ABS", f, "return int.to_bytes(.., len(data), ..)", True, f"result length is len({data}) on all {checked} probed length combinations; value is from_bytes({data}) ^ from_bytes(keystream) with one byte order {orders[0]}", node)
-        if key_bad:
-            ctx.ob("R1", "ABS", f, "key tiled then cut to size", False, f"the key operand of the XOR must be the key repeated and cut to exactly len({data}) bytes: {key_bad}", node)
-        elif undec and "keystream" in undec:
-            ctx.undecided("R1", "ABS", f, "key tiled then cut to size", undec, node)
-        elif not undec:
-            ctx.ob("R1", "ABS", f, "key tiled then cut to size", True, f"the key operand equals (key * ceil)[:len({data})] on all {checked} probed length combinations (len(data) 0..9, len(key) 1..7)", node)
+            ctx.ob("R1", "ABS", f, "return int.to_bytes(.., len(data), ..)", True, f"result length is len({data}) in normal form; value is from_bytes({data}) ^ from_bytes(keystream) with one unsigned byte order {orders[0]}", node)
+        ok, why = _keystream(K, F, data, key)
+        if ok is None:
+            ctx.undecided("R1", "ABS", f, "key tiled then cut to size", why, node)
+        else:
+            ctx.ob("R1", "ABS", f, "key tiled then cut to size", ok, ("" if ok else f"the key operand of the XOR must be the key repeated and cut to exactly len({data}) bytes: ") + why + f" (path {_cond_text(s.conds)})", node)
 
 
 # ===================================================================================================== R2 pack / unpack
@@ -1113,6 +1607,20 @@ def _wrapper_call(ctx, mod, v, ps, depth):
     for k in v.keywords:
         kws[k.arg] = k.value
     return tgt, kws, passed
+
+
+def _none_test(a, p):
+    """`p is None` / `p == None` (mirrored too) -> True, `p is not None` / `p != None` -> False, anything else -> None."""
+    if isinstance(a, ast.Compare) and len(a.ops) == 1:
+        l, r = a.left, a.comparators[0]
+        if isinstance(l, ast.Constant) and l.value is None:
+            l, r = r, l
+        if _is_param(l, p) and isinstance(r, ast.Constant) and r.value is None:
+            if isinstance(a.ops[0], (ast.Is, ast.Eq)):
+                return True
+            if isinstance(a.ops[0], (ast.IsNot, ast.NotEq)):
+                return False
+    return None
 
 
 def r2(ctx):
@@ -1204,32 +1712,40 @@ def r2(ctx):
                 continue
             thru = _is_param(tb["value"], pps[0]) and _is_param(tb["byteorder"], "byteorder") and _is_param(tb["signed"], "signed")
             L = tb["length"]
-            # which case of `size` is this path?
-            envs = []
-            for none in (True, False):
-                env0 = {"size": None if none else 3, "$is_none": none}
-                feas, _u = _feasible(s, env0)
-                if feas:
-                    envs.append(none)
+            # which case of `size` is this path?  (case analysis over the code's own None-tests of the parameter)
+            envs, unk = [True, False], []
+            for a, pol in s.conds:
+                t = _none_test(a, "size")
+                if t is None:
+                    if _mentions(a, "size"):
+                        unk.append(a)
+                    continue
+                envs = [x for x in envs if x == (t == pol)]
+            if unk:
+                envs = []
             len_ok = True
             for none in envs:
                 if not none:
                     if not _is_param(L, "size"):
                         len_ok = False
                         why.append(f"with a given size the length argument is `{src(L)}`")
+                elif _is_param(L, "size"):
+                    len_ok = False
+                    why.append("with size None the length argument is None")
                 else:
-                    La = _abstract(L, {f"{pps[0]}.bit_length()": "$b"})
-                    try:
-                        if not all(_ev(La, {"$b": b, "size": None}) == (b + 7) // 8 for b in range(0, 80)):
-                            len_ok = False
-                            why.append(f"with size None the length argument `{src(L)}` is not the minimal byte count (bit_length + 7) // 8")
-                    except _NoEval as x:
-                        if _is_param(L, "size"):
-                            len_ok = False
-                            why.append("with size None the length argument is None")
-                        elif verdict is not False:
-                            verdict = None
-                            why.append(f"minimal size `{src(L)}` not evaluable ({x})")
+                    # minimal byte count: ceil(bit_length / 8) in normal form (L10)
+                    b = SymPoly.atom(f"{pps[0]}.bit_length()")
+                    pl = _P(L)
+                    good = (_div_atom("fd", b + SymPoly.const(7), SymPoly.const(8)), _div_atom("cd", b, SymPoly.const(8)))
+                    if pl is not None and pl in good:
+                        continue
+                    known = pl is not None and all(x == f"{pps[0]}.bit_length()" or (x in _DIVS and _int_const(_DIVS[x][2]) is not None and _DIVS[x][1].atoms() <= {f"{pps[0]}.bit_length()"}) for x in pl.atoms())
+                    if known:
+                        len_ok = False
+                        why.append(f"with size None the length argument `{src(L)}` = {pl!r} is not the minimal byte count ceil(bit_length / 8) = (bit_length + 7) // 8")
+                    elif verdict is not False:
+                        verdict = None
+                        why.append(f"minimal size `{src(L)}` is not one of the recognised forms of ceil(bit_length / 8)")
             if not envs:
                 verdict = None if verdict is not False else False
                 why.append(f"path conditions {_cond_text(s.conds)} not decidable for size None / given")
@@ -1258,6 +1774,28 @@ def _calls_to(ctx, f, e, fq):
     return out
 
 
+def _keeps_all_but_slash(c, v):
+    """Comprehension filter over the character variable v: `v != "/"` (mirrored, `not v == "/"`, `v not in "/"`) -> True;
+    the same test against another constant -> False; anything else -> None."""
+    pol = True
+    while isinstance(c, ast.UnaryOp) and isinstance(c.op, ast.Not):
+        c, pol = c.operand, not pol
+    if not (isinstance(c, ast.Compare) and len(c.ops) == 1):
+        return None
+    l, r, op = c.left, c.comparators[0], c.ops[0]
+    if isinstance(l, ast.Constant) and isinstance(op, (ast.Eq, ast.NotEq)):
+        l, r = r, l
+    if not (_is_param(l, v) and isinstance(r, ast.Constant) and isinstance(r.value, str)):
+        return None
+    if isinstance(op, (ast.NotEq, ast.NotIn)):
+        keeps_others = pol
+    elif isinstance(op, (ast.Eq, ast.In)):
+        keeps_others = not pol
+    else:
+        return None
+    return keeps_others and r.value == "/"
+
+
 def _codepoint_sum(e, p):
     """Is `e` the sum of the code points of parameter p without its '/' characters?  True / False (located, wrong) / None."""
     if not (isinstance(e, ast.Call) and dotted(e.func) == "sum" and len(e.args) == 1 and not e.keywords):
@@ -1273,13 +1811,12 @@ def _codepoint_sum(e, p):
             return None
         t = g.iter
         for c in g.ifs:
-            try:
-                if [ch for ch in "/aZ0~" if _ev(c, {v: ch})] == list("aZ0~"):
-                    filt = True
-                else:
-                    return False
-            except _NoEval:
+            k = _keeps_all_but_slash(c, v)
+            if k is None:
                 return None
+            if not k:
+                return False
+            filt = True
     else:
         return None
     # t: the text, with '/' removed unless filtered above
@@ -1291,43 +1828,129 @@ def _codepoint_sum(e, p):
         return [_c(x) for x in t.args[0].args] == ["/"]
     if _is_param(t, p):
         return filt
-    return None if not _mentions(t, p) else None
+    return None
 
 
-_PROBE_CHARS = [chr(i) for i in range(0, 0x180)] + ["٠", "é", "Ⅷ", "Ａ", "٣", "²"]
+# ---- the x64 URI pattern, judged on its parse tree (device 6; nothing is compiled for matching, no string is matched)
+_ALNUM_RANGES = [(48, 57), (65, 90), (97, 122)]  # the table [0-9A-Za-z] as code point ranges
 
 
-_ALNUM62 = set("ABCDEFGHIJKLMNOPQRSTUVWXYZabcdefghijklmnopqrstuvwxyz0123456789")
+def _class_ranges(items, flags):
+    """Character set of one pattern position (`items`: a LITERAL / IN item list of the parse tree) as
+    (code point interval set, matches-non-ASCII?, explanation) or None when the class uses a construct not modelled."""
+    from re import _constants as C
 
-
-def _x64_want(s):
-    return len(s) == 5 and s[0] == "/" and all(c in _ALNUM62 for c in s[1:])
-
-
-def _x64_probes():
-    probes = ["", "/", "a", "/a", "/ab", "/abc", "/abcd", "/abcde", "/abcdef", "abcde", "a/bcd", "x/abcd", "//abcd", "/abcd/", "/abcd ", " /abcd", "/ab d", "/0000", "/ZZZZ", "/zzzz", "/a1B2", "/abcd\x00", "//abc", "/abc/"]
-    for pos in range(5):
-        for ch in _PROBE_CHARS:
-            if ch == "\n" and pos == 4:
-                continue
-            s = list("/a0Zz")
-            s[pos] = ch
-            probes.append("".join(s))
-    return probes
+    ascii_only = bool(flags & re.ASCII)
+    ivs, extra = [], None
+    for op, av in items:
+        if op is C.LITERAL:
+            ivs.append((av, av))
+        elif op is C.RANGE:
+            ivs.append(av)
+        elif op is C.CATEGORY and av is C.CATEGORY_DIGIT:
+            ivs.append((48, 57))
+            if not ascii_only:
+                extra = "\\d matches non-ASCII digits without re.ASCII (L13)"
+        elif op is C.CATEGORY and av is C.CATEGORY_WORD:
+            ivs += _ALNUM_RANGES + [(95, 95)]
+            if not ascii_only:
+                extra = "\\w matches non-ASCII word characters without re.ASCII (L13)"
+        else:
+            return None  # negated classes, other categories
+    ivs = _iv_norm(ivs)
+    if flags & re.IGNORECASE:
+        lower, upper = _iv_and(ivs, [(97, 122)]), _iv_and(ivs, [(65, 90)])
+        ivs = _iv_or(ivs, [(lo - 32, hi - 32) for lo, hi in lower] + [(lo + 32, hi + 32) for lo, hi in upper])
+        if not ascii_only and _iv_and(ivs, [(ord(ch), ord(ch)) for ch in "iksIKS"]):
+            extra = extra or "with re.IGNORECASE and without re.ASCII the letters i, k, s also match non-ASCII characters (L14)"
+    return ivs, extra
 
 
 def _x64_language_ok(kind, pattern, flags=0):
-    """Does the regular expression, used with re.<kind>, accept exactly '/' + four ASCII alphanumerics?  (A trailing
-    newline after `$` is the documented quirk of `$` and is not probed.)"""
+    """Does the regular expression, used with re.<kind>, accept exactly '/' + four ASCII alphanumerics?  Decided on the
+    parse tree: anchoring per L12, exactly five one-character positions, the first the literal '/', the others a class
+    equal to the table [0-9A-Za-z].  -> (True | False | None, explanation)"""
+    from re import _constants as C
+    from re import _parser
+
+    if not isinstance(pattern, str):
+        return None, "pattern is not a str constant"
     try:
-        rx = re.compile(pattern, flags)
-    except (re.error, TypeError, ValueError):
-        return False, "pattern does not compile"
-    fn = getattr(rx, kind)
-    want, probes = _x64_want, _x64_probes()
-    for s in probes:
-        if bool(fn(s)) != want(s):
-            return False, f"{s!r} is {'accepted' if fn(s) else 'rejected'}"
+        tree = _parser.parse(pattern, flags)
+    except (re.error, TypeError, ValueError, RecursionError, OverflowError):
+        return False, "pattern does not parse"
+    flags = tree.state.flags
+    if flags & (re.LOCALE | re.DEBUG):
+        return None, "locale-dependent pattern"
+    items = list(tree)
+
+    def anchor(it, begin):
+        if it[0] is not C.AT:
+            return None
+        if begin:
+            return "string" if it[1] is C.AT_BEGINNING_STRING or (it[1] is C.AT_BEGINNING and not flags & re.MULTILINE) else "line" if it[1] is C.AT_BEGINNING else None
+        return "string" if it[1] is C.AT_END_STRING or (it[1] is C.AT_END and not flags & re.MULTILINE) else "line" if it[1] is C.AT_END else None
+
+    begin = end = None
+    if items and anchor(items[0], True):
+        begin, items = anchor(items[0], True), items[1:]
+    if items and anchor(items[-1], False):
+        end, items = anchor(items[-1], False), items[:-1]
+    # positions
+    pos, variable = [], None
+
+    def flatten(seq):
+        nonlocal variable
+        for op, av in seq:
+            if op is C.LITERAL:
+                pos.append([(op, av)])
+            elif op is C.IN:
+                pos.append(list(av))
+            elif op is C.ANY:
+                pos.append("any")
+            elif op in (C.MAX_REPEAT, C.MIN_REPEAT, getattr(C, "POSSESSIVE_REPEAT", None)):
+                lo, hi, sub = av
+                sub = list(sub)
+                if lo != hi:
+                    variable = f"a repeat of {lo} to {'any number' if hi is C.MAXREPEAT else hi} characters"
+                    hi = lo
+                if lo > 16:
+                    return False
+                mark = len(pos)
+                if not flatten(sub) or len(pos) - mark != 1:
+                    return False
+                pos.extend([pos[-1]] * (lo - 1))
+                if lo == 0:
+                    pos.pop()
+            elif op is C.SUBPATTERN and not av[1] and not av[2]:
+                if not flatten(list(av[3])):
+                    return False
+            else:
+                return False
+        return True
+
+    if not flatten(items):
+        return None, "pattern structure outside the modelled subset (single characters, classes, counted repeats, plain groups)"
+    if (begin == "line" and kind == "search") or (end == "line" and kind != "fullmatch"):
+        return False, "with re.MULTILINE `^`/`$` are line anchors: multi-line URIs are accepted (L12)"
+    if kind == "search" and begin != "string":
+        return False, "re.search with a pattern that is not anchored at the start of the string accepts longer URIs (L12)"
+    if kind in ("match", "search") and end != "string":
+        return False, "the pattern is not anchored at the end of the string: longer URIs are accepted (L12)"
+    if variable:
+        return False, f"the pattern contains {variable}: URIs of different lengths are accepted"
+    if len(pos) != 5:
+        return False, f"the pattern matches {len(pos)} characters, required '/' + 4"
+    for i, p in enumerate(pos):
+        if p == "any":
+            return False, f"position {i} accepts any character"
+        r = _class_ranges(p, flags)
+        if r is None:
+            return None, f"character class at position {i} uses a construct the rule does not model"
+        ivs, extra = r
+        want = [(47, 47)] if i == 0 else _ALNUM_RANGES
+        if ivs != want or (extra and i > 0):
+            return False, f"position {i} accepts {_iv_text(ivs)}" + (f"; {extra}" if extra else "") + f", required {_iv_text(want)} (code points)"
     return True, ""
 
 
@@ -1342,7 +1965,7 @@ def _re_flags(node):
             binds[d] = "$" + d.replace(".", "_")
             env[binds[d]] = int(getattr(re, d[3:]))
     try:
-        v = _ev(_abstract(node, binds), env)
+        v = _fold(_abstract(node, binds), env)
     except _NoEval:
         return None
     return int(v) if isinstance(v, int) else None
@@ -1374,6 +1997,39 @@ def _regex_calls(ctx, f, e, p):
     return out
 
 
+def _shape_atom(a, u):
+    """A test of the shape of the URI parameter u that does not use a regular expression -> "len5" | "slash" | "alnum" |
+    "ascii" | "other" (a recognised string predicate that is none of the four) | None (not a recognised shape test)."""
+    t = _int_test(a)
+    if t is not None and t[0] == f"len({u})":
+        return "len5" if (t[1], t[2]) == (ast.Eq, 5) else "other"
+
+    def tail(x):  # u[1:] / u[1:5]
+        return isinstance(x, ast.Subscript) and _is_param(x.value, u) and isinstance(x.slice, ast.Slice) and _c(x.slice.lower) == 1 and (x.slice.upper is None or _c(x.slice.upper) == 5) and x.slice.step is None
+
+    if isinstance(a, ast.Call) and isinstance(a.func, ast.Attribute) and not a.keywords:
+        recv, m = a.func.value, a.func.attr
+        if m == "startswith" and _is_param(recv, u) and len(a.args) == 1:
+            return "slash" if _c(a.args[0]) == "/" else "other"
+        if m == "isalnum" and not a.args:
+            return "alnum" if tail(recv) else "other" if _mentions(recv, u) else None
+        if m == "isascii" and not a.args:
+            return "ascii" if tail(recv) or _is_param(recv, u) else "other" if _mentions(recv, u) else None
+        return None
+    if isinstance(a, ast.Compare) and len(a.ops) == 1 and isinstance(a.ops[0], ast.Eq):
+        l, r = a.left, a.comparators[0]
+        if isinstance(l, ast.Constant):
+            l, r = r, l
+        if _c(r) == "/" and isinstance(l, ast.Subscript) and _is_param(l.value, u):
+            sl = l.slice
+            if (not isinstance(sl, ast.Slice) and _c(sl) == 0) or (isinstance(sl, ast.Slice) and sl.lower is None and _c(sl.upper) == 1 and sl.step is None):
+                return "slash"
+    return None
+
+
+_C8_DOM = (0, 255)  # L11
+
+
 def r3(ctx):
     # ---- checksum8: 0 below four characters, else the code point sum without '/' modulo 256
     c8 = ctx.repo.func("utils.checksum8")
@@ -1384,65 +2040,58 @@ def r3(ctx):
         rets = [s for s in states if s.end[0] == "return" and s.end[1] is not None]
         if any(s.end[0] == "fall" or (s.end[0] == "return" and s.end[1] is None) for s in states):
             bad.append("a path returns no value")
-        lenkey = f"len({p})"
-        for k in range(0, 9):
-            took = 0
-            for s in rets:
-                feas = True
-                for a, pol in s.conds:
-                    t = _truth(_abstract(a, {lenkey: "$len"}), {"$len": k})
-                    if t is None:
-                        if _mentions(a, p):
-                            # a length test on something derived from the text is a different function
-                            derived = [n for n in ast.walk(a) if isinstance(n, ast.Call) and dotted(n.func) == "len" and n.args and not _is_param(n.args[0], p) and _mentions(n.args[0], p)]
-                            (bad if derived else undec).append(f"path condition `{src(a)[:80]}`" + (" measures a transformed text" if derived else " not decidable from the text length"))
-                        continue
-                    if t == "raises" or t != pol:
-                        feas = False
-                        break
-                if not feas:
+        lenatom = f"len({p})"
+        dom = (0, _INF)
+        zero, formula, covered = [], [], []  # interval sets of text lengths
+        for s in rets:
+            lens = [dom]
+            for a, pol in s.conds:
+                t = _atom_set(a, lenatom, dom)
+                if t is None:
+                    if _mentions(a, p):
+                        # a length test on something derived from the text is a different function
+                        derived = [n for n in ast.walk(a) if isinstance(n, ast.Call) and dotted(n.func) == "len" and n.args and not _is_param(n.args[0], p) and _mentions(n.args[0], p)]
+                        (bad if derived else undec).append(f"path condition `{src(a)[:80]}`" + (" measures a transformed text" if derived else " is not an interval test of the text length"))
                     continue
-                took += 1
-                v = s.end[1]
-                if k < 4:
-                    t = None
-                    try:
-                        t = _ev(_abstract(v, {lenkey: "$len"}), {"$len": k})
-                    except _NoEval:
-                        pass
-                    if t is None or isinstance(t, bool) or t != 0:
-                        if t is None and not isinstance(v, ast.Constant):
-                            # the general formula also applies to short texts
-                            bad.append(f"a text of {k} characters does not yield 0 but `{src(v)[:60]}`")
-                        else:
-                            bad.append(f"a text of {k} characters yields {t!r}, required 0")
+                lens = _iv_and(lens, t if pol else _iv_not(t, dom))
+            if not lens:
+                continue  # infeasible path
+            covered = _iv_or(covered, lens)
+            v = s.end[1]
+            short, long_ = _iv_and(lens, [(0, 3)]), _iv_and(lens, [(4, _INF)])
+            if isinstance(v, ast.Constant):
+                if v.value == 0 and not isinstance(v.value, bool):
+                    zero = _iv_or(zero, lens)
+                    if long_:
+                        bad.append(f"a text of {long_[0][0]} characters yields the constant 0")
                 else:
-                    m = None
-                    if isinstance(v, ast.BinOp) and isinstance(v.op, (ast.Mod, ast.BitAnd)):
-                        try:
-                            m = _ev(v.right)
-                        except _NoEval:
-                            m = None
-                        cs = _codepoint_sum(v.left, p)
-                        good_m = (m == 256) if isinstance(v.op, ast.Mod) else (m == 255)
-                        if cs is None or m is None:
-                            undec.append(f"checksum expression `{src(v)[:100]}` not recognised as a code point sum")
-                        elif not (cs and good_m):
-                            bad.append(f"a text of {k} characters yields `{src(v)[:100]}`: sum of the code points without '/'={cs}, reduced modulo 256={good_m}")
-                    elif isinstance(v, ast.Constant):
-                        bad.append(f"a text of {k} characters yields the constant {v.value!r}")
-                    elif _codepoint_sum(v, p) is not None:
-                        bad.append(f"the code point sum `{src(v)[:80]}` is not reduced modulo 256")
-                    else:
-                        undec.append(f"checksum expression `{src(v)[:100]}` not recognised")
-            if took == 0 and not undec:
-                bad.append(f"no returning path for a text of {k} characters")
+                    bad.append(f"a text of {lens[0][0]} characters yields {v.value!r}" + (", required 0" if short else " (a constant)"))
+                continue
+            formula = _iv_or(formula, lens)
+            if short:
+                # the general formula also applies to short texts
+                bad.append(f"a text of {short[0][0]} characters does not yield 0 but `{src(v)[:60]}`")
+            if isinstance(v, ast.BinOp) and isinstance(v.op, (ast.Mod, ast.BitAnd)):
+                m = _c(v.right)
+                cs = _codepoint_sum(v.left, p)
+                good_m = (m == 256) if isinstance(v.op, ast.Mod) else (m == 255)  # L11
+                if cs is None or not isinstance(m, int):
+                    undec.append(f"checksum expression `{src(v)[:100]}` not recognised as a code point sum")
+                elif not (cs and good_m):
+                    bad.append(f"a text of {lens[0][0]} characters yields `{src(v)[:100]}`: sum of the code points without '/'={cs}, reduced modulo 256={good_m}")
+            elif _codepoint_sum(v, p) is not None:
+                bad.append(f"the code point sum `{src(v)[:80]}` is not reduced modulo 256")
+            else:
+                undec.append(f"checksum expression `{src(v)[:100]}` not recognised")
+        if not undec and covered != [dom]:
+            missing = _iv_not(covered, dom)
+            bad.append(f"no returning path for a text of {missing[0][0]} characters")
         if bad:
             ctx.ob("R3", "TABLE", c8, "checksum8", False, "; ".join(dict.fromkeys(bad))[:400])
         elif undec:
             ctx.undecided("R3", "TABLE", c8, "checksum8", "; ".join(dict.fromkeys(undec))[:400])
         else:
-            ctx.ob("R3", "TABLE", c8, "checksum8", True, "0 below four characters; otherwise the sum of the code points of the text without '/' modulo 256 (decided for text lengths 0..8)")
+            ctx.ob("R3", "TABLE", c8, "checksum8", True, f"0 on exactly the text lengths {_iv_text(zero)}; on {_iv_text(formula)} the sum of the code points of the text without '/' modulo 256 (interval sets from the path conditions)")
 
     # ---- classifiers
     for name, const, text in (("is_stager_x86", 92, "x86 <=> checksum8 == 92"), ("is_stager_x64", 93, "x64 <=> checksum8 == 93 and /[A-Za-z0-9]{4}")):
@@ -1456,7 +2105,7 @@ def r3(ctx):
             ctx.ob("R3", "TABLE", g, text, False, "a path of the classifier returns no value")
             continue
         bad, undec = [], []
-        # unknowns: the checksum of the URI and (x64) the regex verdict
+        # atoms: the checksum of the URI and (x64) the regex verdict
         binds = {}
         rx_ok, rx_why, rx_seen = True, "", 0
         for s in rets:
@@ -1473,59 +2122,86 @@ def r3(ctx):
                         undec.append("regular expression / flags not constant")
                         continue
                     ok, why = _x64_language_ok(kind, pat, fl)
-                    if not ok:
+                    if ok is None:
+                        undec.append(f"re.{kind}({pat!r}): {why}")
+                    elif not ok:
                         rx_ok, rx_why = False, f"re.{kind}({pat!r}): {why}"
         need_rx = name == "is_stager_x64"
         if need_rx and rx_seen and not rx_ok:
             bad.append(f"the pattern does not accept exactly '/' + four ASCII alphanumerics ({rx_why})")
-        for c8v in range(256):
-            for rxv in ((False, True) if need_rx else (False,)):
-                env = {"$c8": c8v, "$rx": (True if rxv else None)}
-                got = []
-                for s in rets:
-                    feas = True
-                    for a, pol in s.conds:
-                        t = _truth(_abstract(a, binds), env)
-                        if t is None:
-                            undec.append(f"path condition `{src(a)[:80]}` not decidable")
-                        elif t == "raises" or t != pol:
-                            feas = False
-                            break
-                    if feas:
-                        got.append(_truth(_abstract(s.end[1], binds), env))
-                want = c8v == const and (rxv or not need_rx)
-                if any(x is None for x in got):
-                    undec.append(f"classifier value `{src(rets[0].end[1])[:100]}` not evaluable")
-                elif any(x != want for x in got) and not (need_rx and not rx_seen):
-                    bad.append(f"checksum8 == {c8v}" + (f", pattern {'matches' if rxv else 'does not match'}" if need_rx else "") + f": classifier is {got[0]}, required {want}")
-                if bad or undec:
-                    break
-            if bad or undec:
-                break
-        if need_rx and not rx_seen and not bad:
-            # no regular expression: decide the shape test of the URI directly on the probe strings (checksum fixed to 93)
-            undec = []
-            for probe in _x64_probes():
-                env = {"$c8": const, u: probe}
-                got = []
-                for s in rets:
-                    ts = [_truth(_abstract(a, binds), env) for a, _pol in s.conds]
-                    if any(t is None for t in ts):
-                        got.append(None)
-                    elif all(t == pol for t, (_a, pol) in zip(ts, s.conds)):
-                        got.append(_truth(_abstract(s.end[1], binds), env))
-                if any(x is None for x in got):
-                    undec.append("no regular expression test of the URI found and the URI shape test is not evaluable")
-                    break
-                if any(x != _x64_want(probe) for x in got):
-                    bad.append(f"with checksum8 == {const} the URI {probe!r} is {'accepted' if got[0] is True else 'rejected' if got[0] is False else 'an error'}; required: exactly '/' + four ASCII alphanumerics")
-                    break
+        # true-alternatives of the classifier: path conditions + the short-circuit alternatives of the returned value;
+        # each is a conjunction of atoms: an interval set for the checksum, the regex verdict, URI shape tests
+        alts = []
+        for s in rets:
+            for c2, o2 in ex.split(s.end[1]):
+                st = _St(conds=list(s.conds))
+                if o2 and st.add(c2):
+                    alts.append(st.conds)
+        regions = []  # (checksum interval set, rx True/False/None, positive shape atoms)
+        for conds in alts:
+            cs, rx, shape, dead = [_C8_DOM], None, set(), False
+            for a, pol in conds:
+                a2 = _abstract(a, binds)
+                r = None
+                if isinstance(a2, ast.Name) and a2.id == "$rx":
+                    r = pol
+                elif isinstance(a2, ast.Compare) and len(a2.ops) == 1 and isinstance(a2.left, ast.Name) and a2.left.id == "$rx" and isinstance(a2.comparators[0], ast.Constant) and a2.comparators[0].value is None:
+                    if isinstance(a2.ops[0], (ast.Is, ast.Eq)):
+                        r = not pol
+                    elif isinstance(a2.ops[0], (ast.IsNot, ast.NotEq)):
+                        r = pol
+                if r is not None:
+                    if rx is not None and rx != r:
+                        dead = True
+                    rx = r
+                    continue
+                t = _atom_set(a2, "$c8", _C8_DOM)
+                if t is not None:
+                    cs = _iv_and(cs, t if pol else _iv_not(t, _C8_DOM))
+                    continue
+                sh = _shape_atom(a, u)
+                if sh is not None and pol:
+                    shape.add(sh)
+                elif sh is not None or _mentions(a, u) or _names(a2) & {"$c8", "$rx"}:
+                    undec.append(f"condition `{('' if pol else 'not ') + src(a)[:80]}` of the classifier value is outside the recognised forms")
+            if not dead and cs:
+                regions.append((cs, rx, shape))
+
+        def union(pred):
+            out = []
+            for cs, rx, shape in regions:
+                if pred(rx, shape):
+                    out = _iv_or(out, cs)
+            return out
+
+        want = [(const, const)]
+        if not need_rx:
+            if any(rx is not None or shape for _cs, rx, shape in regions):
+                undec.append("the x86 classifier also tests the shape of the URI")
+            got = union(lambda rx, shape: True)
+            if got != want:
+                bad.append(f"the classifier is true for checksum8 in {_iv_text(got)}, required exactly {const}")
+        elif rx_seen:
+            with_rx, without_rx = union(lambda rx, shape: rx is not False), union(lambda rx, shape: rx is not True)
+            if with_rx != want:
+                bad.append(f"with a matching pattern the classifier is true for checksum8 in {_iv_text(with_rx)}, required exactly {const}")
+            if without_rx:
+                bad.append(f"the classifier is true for checksum8 in {_iv_text(without_rx)} although the pattern does not match")
+        else:
+            # no regular expression: the URI shape must be established by string predicates (L15)
+            need = {"len5", "slash", "alnum", "ascii"}
+            loose = [shape for _cs, _rx, shape in regions if not need <= shape]
+            got = union(lambda rx, shape: True)
+            if loose and not undec:
+                bad.append(f"no regular expression and the shape tests {sorted(loose[0])} do not establish '/' + four ASCII alphanumerics (missing {sorted(need - loose[0])}; L15)")
+            if got != want:
+                bad.append(f"the classifier is true for checksum8 in {_iv_text(got)}, required exactly {const}")
         if bad:
             ctx.ob("R3", "TABLE", g, text, False, "; ".join(dict.fromkeys(bad))[:400])
         elif undec:
             ctx.undecided("R3", "TABLE", g, text, "; ".join(dict.fromkeys(undec))[:400])
         else:
-            ctx.ob("R3", "TABLE", g, text, True, f"true exactly when checksum8(uri) == {const}" + (" and the URI is '/' + four ASCII alphanumerics (pattern probed position-wise over 390 characters and lengths 0..7)" if need_rx else "") + " (decided for all 256 checksum values)")
+            ctx.ob("R3", "TABLE", g, text, True, f"true exactly when checksum8(uri) == {const}" + (" and the URI is '/' + four ASCII alphanumerics (pattern parse tree: anchors, five positions, class table)" if need_rx and rx_seen else " and the URI is '/' + four ASCII alphanumerics (string predicates)" if need_rx else "") + " (interval sets over the checksum range [0, 255])")
 
 
 # ===================================================================================================== R4 random_stager_uri
@@ -1563,7 +2239,7 @@ def _alphabet(e, mod=None, depth=0):
             binds[d] = "$string_" + d
     env = {v: _STRING_CONSTS["string." + v[len("$string_"):]] for v in binds.values()}
     try:
-        v = _ev(_abstract(e, binds), env)
+        v = _fold(_abstract(e, binds), env)  # constant folding over the `string` module's reference constants
     except _NoEval:
         return None
     if isinstance(v, (str, list, tuple, set)) and all(isinstance(c, str) and len(c) == 1 for c in v):
@@ -1592,20 +2268,20 @@ def _candidate_shape(v, length, mod=None):
         e = a.elt
         if isinstance(e, ast.Call) and dotted(e.func) in ("random.choice", "choice", "secrets.choice", "random.SystemRandom().choice") and len(e.args) == 1 and not (_names(e.args[0]) & set(_target_names(g.target))):
             alpha = e.args[0]
-            count = ast.Call(func=ast.Name(id="len", ctx=ast.Load()), args=[g.iter], keywords=[])
+            # number of draws = len(range(a, b)) = b - a in normal form (L16)
+            it = g.iter
+            if isinstance(it, ast.Call) and dotted(it.func) == "range" and not it.keywords and 1 <= len(it.args) <= 3 and (len(it.args) < 3 or _c(it.args[2]) == 1):
+                lo, hi = (_P(it.args[0]), _P(it.args[1])) if len(it.args) >= 2 else (SymPoly.const(0), _P(it.args[0]))
+                count = None if lo is None or hi is None else hi - lo
     elif isinstance(a, ast.Call) and dotted(a.func) in ("random.choices", "choices") and a.args:
         b = _callargs(a, ["population", "weights", "cum_weights", "k"])
         if b is not None and "weights" not in b and "cum_weights" not in b:
-            alpha, count = b["population"], b.get("k", ast.Constant(value=1))
+            alpha, count = b["population"], _P(b.get("k", ast.Constant(value=1)))
     elif isinstance(a, ast.Call) and dotted(a.func) in ("random.sample", "sample"):
         return ("/" == prefix, False, None, "random.sample draws without replacement")
-    if alpha is None:
+    if alpha is None or count is None or not count.atoms() <= {length}:
         return None
-    try:
-        cnt_ok = all(_ev(count, {length: k}) == k for k in range(3, 12))
-    except _NoEval:
-        return None
-    return (prefix == "/", cnt_ok, _alphabet(alpha, mod), src(alpha))
+    return (prefix == "/", count == SymPoly.atom(length), _alphabet(alpha, mod), src(alpha))
 
 
 def _filtered_next(v):
@@ -1632,7 +2308,7 @@ def r4(ctx):
         return
     want = {True: "utils.is_stager_x64", False: "utils.is_stager_x86"}
     cls = set(want.values())
-    sel_bad, dom_bad, dom_und, pre_bad, shape = [], [], [], [], {}
+    sel_bad, dom_bad, dom_und, pre_bad, pre_und, shape = [], [], [], [], [], {}
     nret = 0
     for x64 in (True, False):
         ex, states = _try_paths(ctx, "R4", "DOM", f, "return <uri>", preset={"x64": ast.Constant(value=x64)}, resolver=_helper_resolver(ctx, f, cls | {"utils.checksum8"}))
@@ -1692,23 +2368,19 @@ def r4(ctx):
                 dom_und.append(f"x64={x64}: the returned expression `{src(v)[:80]}` uses the classifier in a way the rule does not model")
             else:
                 dom_bad.append(f"x64={x64}: `{src(v)[:60]}` is returned without passing {want[x64]} (path: {_cond_text(s.conds)[-3:]})")
-            # admitted lengths on this path
-            admitted = []
-            for k in range(-3, 13):
-                feas = True
-                for a, pol in s.conds:
-                    if _names(a) <= {"length"}:
-                        t = _truth(a, {"length": k})
-                        if t is None:
-                            continue
-                        if t == "raises" or t != pol:
-                            feas = False
-                            break
-                if feas:
-                    admitted.append(k)
-            lim = [k for k in admitted if k < 3 or (x64 and k != 4)]
+            # admitted lengths on this path: interval set from the path conditions that test `length` alone
+            dom = (-_INF, _INF)
+            admitted = [dom]
+            for a, pol in s.conds:
+                if _names(a) == {"length"}:
+                    t = _atom_set(a, "length", dom)
+                    if t is None:
+                        pre_und.append(f"x64={x64}: path condition `{src(a)[:60]}` is not an interval test of the length")
+                        continue
+                    admitted = _iv_and(admitted, t if pol else _iv_not(t, dom))
+            lim = _iv_and(admitted, _iv_not([(4, 4)] if x64 else [(3, _INF)], dom))
             if lim:
-                pre_bad.append(f"x64={x64}: a URI is generated for length {lim[:4]}")
+                pre_bad.append(f"x64={x64}: a URI is generated for length {_iv_text(lim)}")
             # candidate shape (expand a havoc'd loop symbol to the definition that reaches the loop end)
             cand = v
             if isinstance(v, ast.Name) and "@" in v.id:
@@ -1728,7 +2400,10 @@ def r4(ctx):
     else:
         ctx.ob("R4", "DOM", f, "return <uri>", nret > 0, f"every one of the {nret} returning paths returns the very value that passed a classifier call on its true edge")
     ctx.ob("R4", "AGREE", f, "is_stager = is_stager_x64 if x64 else is_stager_x86", not sel_bad, "the classifier a returned URI passed is is_stager_x64 when x64 is set and is_stager_x86 otherwise" if not sel_bad else "; ".join(dict.fromkeys(sel_bad))[:300])
-    ctx.ob("R4", "DOM", f, "preconditions", not pre_bad, "URIs are only generated for length >= 3, and for x64 only for length == 4 (lengths -3..12 decided on the path conditions)" if not pre_bad else "; ".join(dict.fromkeys(pre_bad))[:300])
+    if pre_bad or not pre_und:
+        ctx.ob("R4", "DOM", f, "preconditions", not pre_bad, "URIs are only generated for length >= 3, and for x64 only for length == 4 (interval sets of the admitted lengths from the path conditions)" if not pre_bad else "; ".join(dict.fromkeys(pre_bad))[:300])
+    else:
+        ctx.undecided("R4", "DOM", f, "preconditions", "; ".join(dict.fromkeys(pre_und))[:300])
     # shape of the candidates
     shapes = list(shape.items())
     if not shapes or any(v is None for _t, v in shapes):
@@ -1889,6 +2564,72 @@ def r5(ctx):
 
 
 # ===================================================================================================== R6 NetBIOS
+class _Nibbles(ast.NodeTransformer):
+    """Replace the sub-terms of the byte variable `cv` (0 <= cv < 256, L17) that are its high / low nibble by the atoms
+    `$hi` / `$lo` (L18, L4); a recognised *other* part of the byte (wrong shift, wrong mask, wrong modulus) becomes an atom
+    `$part<n>` so that the caller can tell a located-but-wrong symbol from an unknown spelling."""
+
+    def __init__(self, cv):
+        self.cv = cv
+        self.parts = {}
+
+    def _byte(self, x):
+        return isinstance(x, ast.Name) and x.id == self.cv
+
+    def _masked(self, x):
+        """cv & m -> m; None otherwise"""
+        if isinstance(x, ast.BinOp) and isinstance(x.op, ast.BitAnd):
+            for a, b in ((x.left, x.right), (x.right, x.left)):
+                m = _c(b)
+                if self._byte(a) and isinstance(m, int) and not isinstance(m, bool):
+                    return m
+        return None
+
+    def _part(self, node):
+        k = self.parts.setdefault(src(node), f"$part{len(self.parts)}")
+        return ast.Name(id=k, ctx=ast.Load())
+
+    def visit(self, node):
+        if isinstance(node, ast.BinOp):
+            k = _c(node.right)
+            k = k if isinstance(k, int) and not isinstance(k, bool) else None
+            shift = k if isinstance(node.op, ast.RShift) else {16: 4, 2: 1, 4: 2, 8: 3, 32: 5, 64: 6, 128: 7}.get(k) if isinstance(node.op, ast.FloorDiv) else None
+            if shift is not None and k is not None:
+                m = self._masked(node.left)
+                if self._byte(node.left) or m is not None:
+                    # (cv & m) >> 4 == cv >> 4 when the mask keeps bits 4..7 (L18)
+                    if shift == 4 and (m is None or m & 0xF0 == 0xF0):
+                        return ast.Name(id="$hi", ctx=ast.Load())
+                    return self._part(node)
+            if isinstance(node.op, ast.Mod) and self._byte(node.left) and k is not None:
+                return ast.Name(id="$lo", ctx=ast.Load()) if k == 16 else self._part(node)
+            m = self._masked(node)
+            if m is not None:
+                return ast.Name(id="$lo", ctx=ast.Load()) if m & 0xFF == 0x0F else self._part(node)
+        if isinstance(node, ast.Subscript) and isinstance(node.value, ast.Call) and dotted(node.value.func) == "divmod" and len(node.value.args) == 2 and self._byte(node.value.args[0]) \
+                and isinstance(node.slice, ast.Constant) and node.slice.value in (0, 1) and not isinstance(node.slice.value, bool):
+            if _c(node.value.args[1]) == 16:
+                return ast.Name(id="$hi" if node.slice.value == 0 else "$lo", ctx=ast.Load())
+            return self._part(node)
+        return super().visit(node)
+
+
+def _offset_transformed(p, off):
+    """Does the normal form contain the offset only inside an operation that is not the identity (L23)?  -> text or None"""
+    o = SymPoly.atom(off)
+    for name in p.atoms():
+        b = _BITS.get(name)
+        if b is not None:
+            tag, x, y = b
+            for u, m in ((x, _int_const(y)), (y, _int_const(x))):
+                if u == o and m is not None and ((tag == "band" and m != -1) or (tag != "band" and m != 0)):
+                    return name
+        d = _DIVS.get(name)
+        if d is not None and d[0] == "md" and d[1] == o and _int_const(d[2]) is not None:
+            return name
+    return None
+
+
 def _seq_builder(ex, v):
     """A returned byte sequence as (iterable term, loop target, [element terms per iteration]) from either a
     comprehension or a list-building loop; None when the term has another shape."""
@@ -1902,7 +2643,7 @@ def _seq_builder(ex, v):
             g2 = gens[1]
             it2 = g2.iter
             if isinstance(it2, ast.Call) and dotted(it2.func) == "divmod" and len(it2.args) == 2:
-                items = [ast.BinOp(left=it2.args[0], op=ast.FloorDiv(), right=it2.args[1]), ast.BinOp(left=it2.args[0], op=ast.Mod(), right=it2.args[1])]
+                items = [ast.BinOp(left=it2.args[0], op=ast.FloorDiv(), right=it2.args[1]), ast.BinOp(left=it2.args[0], op=ast.Mod(), right=it2.args[1])]  # L4
             elif isinstance(it2, (ast.Tuple, ast.List)):
                 items = list(it2.elts)
             else:
@@ -1918,9 +2659,9 @@ def _seq_builder(ex, v):
             return None
         pre = lp.pre.get(nm)
         try:
-            if pre is None or len(_ev(pre)) != 0:
+            if pre is None or len(_fold(pre)) != 0:  # the accumulator starts as a constant empty sequence
                 return None
-        except _NoEval:
+        except (_NoEval, TypeError):
             return None
         elts = _emissions(lp.iters[0].env.get(nm), v.id)
         if elts is None:
@@ -1963,7 +2704,34 @@ def _emissions(t, head):
     return None if b is None else b + list(items.elts)
 
 
-_OFFSETS = (0, 1, 0x41, 0x61, 0x52, 0x6C, 100, 200, 240)
+def _range_params(it):
+    """range(b) / range(a, b) / range(a, b, s) with a constant step -> (start term, stop term, step int) or None."""
+    if not (isinstance(it, ast.Call) and dotted(it.func) == "range" and not it.keywords and 1 <= len(it.args) <= 3):
+        return None
+    if len(it.args) == 1:
+        return ast.Constant(value=0), it.args[0], 1
+    st = _c(it.args[2]) if len(it.args) == 3 else 1
+    if not isinstance(st, int) or isinstance(st, bool) or st < 1:
+        return None
+    return it.args[0], it.args[1], st
+
+
+class _OrAsAdd(ast.NodeTransformer):
+    """`(t << 4) | l` / `(t * 16) | l` -> `(t << 4) + l` when l is one encoder symbol minus the offset, i.e. a nibble in
+    [0, 15] under the encoder hypothesis (L20)."""
+
+    def __init__(self, off):
+        self.nib = [SymPoly.atom(s) - SymPoly.atom(off) for s in ("$x", "$y")]
+
+    def visit_BinOp(self, n):
+        self.generic_visit(n)
+        if isinstance(n.op, ast.BitOr):
+            for hi, lo in ((n.left, n.right), (n.right, n.left)):
+                mult16 = (isinstance(hi, ast.BinOp) and isinstance(hi.op, ast.LShift) and _c(hi.right) == 4) or \
+                         (isinstance(hi, ast.BinOp) and isinstance(hi.op, ast.Mult) and 16 in (_c(hi.left), _c(hi.right)))
+                if mult16 and _P(lo) in self.nib:
+                    return ast.BinOp(left=hi, op=ast.Add(), right=lo)
+        return n
 
 
 def r6(ctx):
@@ -1978,14 +2746,22 @@ def r6(ctx):
             continue
         rets = [s for s in states if s.end[0] == "return" and s.end[1] is not None]
         if len(rets) > 1:
-            # an extra shortcut for empty input that returns the empty result does not matter
+            # an extra shortcut for empty input that returns the empty result does not matter: its path conditions
+            # admit exactly len(data) == 0 (interval set) and its value folds to an empty constant
             def empty_shortcut(s):
                 try:
-                    if len(_ev(s.end[1], {gps[0]: b""})) != 0:
+                    if len(_fold(s.end[1])) != 0:
                         return False
                 except (_NoEval, TypeError):
                     return False
-                return _feasible(s, {gps[0]: b""})[0] and not _feasible(s, {gps[0]: b"AB"})[0] and not _feasible(s, {gps[0]: b"ABCD"})[0]
+                dom = (0, _INF)
+                lens = [dom]
+                for a, pol in s.conds:
+                    a = _unview(a, gps[:1])
+                    t = [(1, _INF)] if _is_param(a, gps[0]) else _atom_set(a, f"len({gps[0]})", dom)
+                    if t is not None:
+                        lens = _iv_and(lens, t if pol else _iv_not(t, dom))
+                return lens == [(0, 0)]
 
             rets = [s for s in rets if not empty_shortcut(s)]
         if len(rets) != 1 or any(s.end[0] == "fall" for s in states):
@@ -2016,29 +2792,33 @@ def r6(ctx):
             if len(elts) != 2:
                 bad = f"{len(elts)} symbol(s) are emitted per input byte, required 2"
             else:
-                try:
-                    for c in range(256):
-                        for off in _OFFSETS:
-                            got = [_ev(x, {cv: c, op: off}) for x in elts]
-                            if got != [(c >> 4) + off, (c & 15) + off]:
-                                bad = f"byte {c:#x}, offset {off:#x}: emitted {got}, required high nibble + offset then low nibble + offset {[(c >> 4) + off, (c & 15) + off]}"
-                                break
-                        if bad:
-                            break
-                except _Raises as x:
-                    bad = f"symbol expression raises: {x}"
-                except _NoEval as x:
-                    und = f"symbol expressions {[src(x)[:60] for x in elts]} not evaluable ({x})"
-                    if any(_mentions(x, op) and not any(_is_param(n, op) for n in ast.walk(x)) for x in elts):
-                        und = None
-                        bad = "the offset is transformed before use"
+                nib = _Nibbles(cv)
+                terms = [nib.visit(copy.deepcopy(x)) for x in elts]
+                polys = [_P(x) for x in terms]
+                off = SymPoly.atom(op)
+                want = [SymPoly.atom("$hi") + off, SymPoly.atom("$lo") + off]
+                if polys == want:
+                    pass
+                elif any(p is None for p in polys):
+                    und = f"symbol expressions {[src(x)[:60] for x in elts]} are not arithmetic terms over the byte's nibbles and the offset"
+                else:
+                    atoms = set().union(*(p.atoms() for p in polys))
+                    tr = next((t for t in (_offset_transformed(p, op) for p in polys) if t), None)
+                    rest = atoms - {"$hi", "$lo", op} - set(nib.parts.values())
+                    if tr and not (rest - {tr}):
+                        bad = f"the offset is transformed before use ({tr}; L23)"
+                    elif rest:
+                        und = f"symbol expressions {[src(x)[:60] for x in elts]} contain terms the rule does not model: {sorted(rest)[:3]}"
+                    else:
+                        inv = {v: k for k, v in nib.parts.items()}
+                        shown = [repr(p) for p in polys]
+                        bad = f"per input byte the symbols are {shown}" + (f" with {', '.join(f'{k} = {inv[k]}' for k in sorted(inv))} not a nibble of the byte" if inv else "") + ", required [$hi + offset, $lo + offset] (high nibble c >> 4 first, then low nibble c & 15; L18)"
             if bad:
                 ctx.ob("R6", "AGREE", e, TE, False, bad)
             elif und:
-                # a rewritten parameter shows up as an unevaluable sub-term that still mentions the parameter
                 ctx.undecided("R6", "AGREE", e, TE, und)
             else:
-                ctx.ob("R6", "AGREE", e, TE, True, f"per input byte the symbols {[src(x) for x in elts]} = (high nibble + offset, low nibble + offset), decided for all 256 bytes and {len(_OFFSETS)} offsets")
+                ctx.ob("R6", "AGREE", e, TE, True, f"per input byte the symbols {[src(x) for x in elts]} = (high nibble + offset, low nibble + offset) in normal form (nibble forms L17/L18)")
     if dec is not None:
         (dp, op), (it, tgt, elts) = dec[0][:2], dec[1]
         bad = und = None
@@ -2068,58 +2848,64 @@ def r6(ctx):
                         und = f"slice access `{src(n)[:60]}`"
                 if not subs and _mentions(E1, dp) is False:
                     und = "the decoded byte does not read the data by index"
-                # positions: over an even length L the steps must visit (0,1), (2,3), ...
+                # positions: the j-th step has the index a + s*j (L22); the two reads must be at 2j and 2j + 1
                 if bad is None and und is None:
-                    itx = _abstract(it, {f"len({dp})": "$len"})
-                    try:
-                        for L in (0, 2, 4, 6, 10):
-                            steps = list(_ev(itx, {"$len": L}))
-                            for j, i in enumerate(steps):
-                                for n in subs:
-                                    pos = _ev(n.slice, {iv: i})
-                                    if pos == 2 * j:
-                                        r = "$x"
-                                    elif pos == 2 * j + 1:
-                                        r = "$y"
-                                    else:
-                                        bad = bad or f"step {j} over {L} symbols reads position {pos}, required {2 * j} and {2 * j + 1}"
-                                        continue
-                                    if roles.setdefault(src(n), r) != r:
-                                        bad = bad or f"`{src(n)}` is not consistently the first/second symbol of a pair"
-                            if len(steps) != L // 2:
-                                bad = bad or f"{len(steps)} steps over {L} symbols (`{src(it)[:60]}`), required {L // 2}"
-                    except _Raises as x:
-                        bad = bad or f"index expression raises: {x}"
-                    except _NoEval as x:
-                        und = f"iteration `{src(it)[:60]}` / index not evaluable ({x})"
+                    rp = _range_params(it)
+                    if rp is None:
+                        und = f"iteration `{src(it)[:60]}` is not a range with a constant step"
+                    else:
+                        a0, stop, step = rp
+                        jth = ast.BinOp(left=a0, op=ast.Add(), right=ast.BinOp(left=ast.Constant(value=step), op=ast.Mult(), right=ast.Name(id="$j", ctx=ast.Load())))
+                        j2 = SymPoly.const(2) * SymPoly.atom("$j")
+                        for n in subs:
+                            pos = _P(_subst_name(n.slice, iv, jth))
+                            if pos is None or not pos.atoms() <= {"$j"}:
+                                und = und or f"index `{src(n.slice)[:40]}` is not an affine term of the loop variable"
+                            elif pos == j2 or pos == j2 + _ONE:
+                                r = "$x" if pos == j2 else "$y"
+                                if roles.setdefault(src(n), r) != r:
+                                    bad = bad or f"`{src(n)}` is not consistently the first/second symbol of a pair"
+                            else:
+                                bad = bad or f"step j reads position {pos!r}, required 2*j and 2*j + 1"
+                        # number of steps: L // 2 for even L (L22)
+                        ln = SymPoly.atom(f"len({dp})")
+                        pa, pb = _P(a0), _P(stop)
+                        if bad is None and und is None:
+                            if pa is None or pb is None or _int_const(pa) != 0:
+                                und = f"range bounds of `{src(it)[:60]}` not recognised"
+                            elif (step == 2 and pb == ln) or (step == 1 and pb == _div_atom("fd", ln, SymPoly.const(2))):
+                                pass
+                            elif step == 1 and pb == ln:
+                                bad = f"len({dp}) steps over len({dp}) symbols (`{src(it)[:60]}`), required len({dp}) // 2"
+                            else:
+                                und = f"number of steps of `{src(it)[:60]}` not recognised as len({dp}) // 2"
                     if bad is None and und is None and set(roles.values()) != {"$x", "$y"}:
                         bad = f"a step reads only {sorted(roles)} of its pair"
             else:
                 und = f"iteration `{src(it)[:80]}` not recognised"
         if bad is None and und is None:
+            # under the encoder hypothesis x = hi + offset, y = lo + offset the decoded byte must be 16*(x - offset) + (y - offset) (L19-L21)
             Ea = _abstract(E1, roles) if not all(k.isidentifier() for k in roles) else _subst_roles(E1, roles)
-            try:
-                for c in range(256):
-                    for off in _OFFSETS:
-                        x, y = (c >> 4) + off, (c & 15) + off
-                        got = _ev(Ea, {"$x": x, "$y": y, op: off})
-                        if got != c:
-                            bad = f"symbols ({x:#x}, {y:#x}) at offset {off:#x} decode to {got!r}, required {c:#x} (first symbol is the high nibble, each minus offset)"
-                            break
-                    if bad:
-                        break
-            except _Raises as x:
-                bad = f"decoded byte expression raises: {x}"
-            except _NoEval as x:
-                und = f"decoded byte `{src(E1)[:80]}` not evaluable ({x})"
-                if _mentions(E1, op) and not any(_is_param(n, op) for n in ast.walk(E1)) or any(isinstance(n, ast.Call) and _mentions(n, op) for n in ast.walk(E1)):
-                    und, bad = None, f"the offset is transformed before use in `{src(E1)[:80]}`"
+            pd = _P(_OrAsAdd(op).visit(Ea))
+            x, y, off = SymPoly.atom("$x"), SymPoly.atom("$y"), SymPoly.atom(op)
+            want = SymPoly.const(16) * (x - off) + (y - off)
+            if pd is None:
+                und = f"decoded byte `{src(E1)[:80]}` is not an arithmetic term over the two symbols and the offset"
+            elif pd != want:
+                tr = _offset_transformed(pd, op)
+                rest = pd.atoms() - {"$x", "$y", op}
+                if tr and not (rest - {tr}):
+                    bad = f"the offset is transformed before use in `{src(E1)[:80]}` ({tr}; L23)"
+                elif rest:
+                    und = f"decoded byte `{src(E1)[:80]}` contains terms the rule does not model: {sorted(rest)[:3]}"
+                else:
+                    bad = f"the decoded byte is {pd!r} over the pair ($x, $y), required {want!r} (first symbol is the high nibble, each minus offset; L21)"
         if bad:
             ctx.ob("R6", "AGREE", d, TD, False, bad)
         elif und:
             ctx.undecided("R6", "AGREE", d, TD, und)
         else:
-            ctx.ob("R6", "AGREE", d, TD, True, f"pairs (2j, 2j+1) of the data are combined as `{src(E1)[:80]}`, which gives back every byte from the encoder's two symbols (all 256 bytes, {len(_OFFSETS)} offsets)")
+            ctx.ob("R6", "AGREE", d, TD, True, f"pairs (2j, 2j+1) of the data are combined as `{src(E1)[:80]}` = 16*($x - offset) + ($y - offset) in normal form, the inverse of the encoder's symbols (L19-L21)")
     de, dd = _c(param_defaults(e.node).get(params(e.node)[1])) if len(params(e.node)) > 1 else None, _c(param_defaults(d.node).get(params(d.node)[1])) if len(params(d.node)) > 1 else None
     ctx.ob("R6", "AGREE", e, "default offset", de == dd == 0x41, f"encoder default offset {de}, decoder {dd}")
 
